@@ -12,1606 +12,866 @@ Definition show_fres (r : fres) : string :=
   end.
 Definition check (rs : list rune) : string := digest (show_fres (format_res rs)).
 Definition full (rs : list rune) : string := show_fres (format_res rs).
-Eval vm_compute in ("<<<M3617>>>" ++ check (runes_of_ascii "// top
-options // c0
-{ // c1a
-  // c1b
-LittleEndian = // c3
-true // c4a
-  // c4b
-;
-    // c5
-StringPrefixLenType // c6a
-  // c6b
-= // c7a
-  // c7b
-u16 // c8a
-  // c8b
-; // c9
-ArrayPrefixLenType // c10a
-  // c10b
-= // c11a
-  // c11b
-u8 // c12a
-  // c12b
-;
-    // c13
-FixedStringPadChar // c14
-= '0' // c16a
-  // c16b
-;
-    // c17
-} // c18
-packet Logout
-    // c20
-{
-    // c21
-repeat
-    // c22
-i16 // c23
-f1
-    // c24
-,
-    // c25
-string // c26a
-  // c26b
-Ref // c27
-, // c28a
-  // c28b
-@rightPad // c29
-( '\x00' // c31
-)
-    // c32
-char[ // c33a
-  // c33b
-9
-    // c34
-]
-    // c35
-Tail , // c37a
-  // c37b
-repeat // c38
-char[ 6
-    // c40
-] // c41
-Flags // c42a
-  // c42b
-, // c43
-repeat
-    // c44
-char[ // c45
-3 // c46
-] // c47
-Acct , }
-    // c50
-packet Party // c52a
-  // c52b
-{ // c53a
-  // c53b
-char[ 2
-    // c55
-]
-    // c56
-f1
-    // c57
-,
-    // c58
-u8
-    // c59
-Side2
-    // c60
-, // c61a
-  // c61b
-@leftPad // c62
-(
-    // c63
-' '
-    // c64
-) // c65
-char[ // c66a
-  // c66b
-1 ] // c68a
-  // c68b
-venue , // c70
-} packet
-    // c72
-Order // c73a
-  // c73b
-{ // c74a
-  // c74b
-repeat // c75
-i64 Ref , InPx62 { i32 // c81
-OrderId , // c83
-} ,
-    // c85
-InNote53 // c86a
-  // c86b
-{ // c87
-InClordid80
-    // c88
-{
-    // c89
-char[] Acct // c91a
-  // c91b
-, u32
-    // c93
-Px , // c95a
-  // c95b
-repeat // c96a
-  // c96b
-Party // c97
-, // c98
-} , // c100a
-  // c100b
-InPrice12 { u8 // c103a
-  // c103b
-pad0 , // c105a
-  // c105b
-} // c106a
-  // c106b
-, repeat // c108a
-  // c108b
-Logout ,
-    // c110
-InFlags23 // c111a
-  // c111b
-{ // c112a
-  // c112b
-repeat string
-    // c114
-seqNo // c115a
-  // c115b
-, // c116a
-  // c116b
-string // c117
-sym // c118
-, // c119a
-  // c119b
-int8 // c120a
-  // c120b
-Flags
-    // c121
-, // c122a
-  // c122b
-zchar[ // c123a
-  // c123b
-5 // c124
-] // c125
-lastPx // c126a
-  // c126b
-, // c127a
-  // c127b
-zchar[
-    // c128
-6
-    // c129
-] // c130a
-  // c130b
-Px
-    // c131
-, // c132a
-  // c132b
-} // c133a
-  // c133b
-, // c134a
-  // c134b
-char[ 10 ] Acct // c138a
-  // c138b
-,
-    // c139
-InPx18 // c140
-{ zchar[
-    // c142
-2 // c143
-] // c144a
-  // c144b
-count , Party
-    // c147
-,
-    // c148
-} // c149a
-  // c149b
-, } // c151a
-  // c151b
-, // c152a
-  // c152b
-char[
-    // c153
-5
-    // c154
-]
-    // c155
-Side2
-    // c156
-, // c157a
-  // c157b
-char[ // c158
-1 // c159
-] // c160a
-  // c160b
-Acct // c161
-, } // c163a
-  // c163b
-root // c164a
-  // c164b
-packet // c165
-Ack // c166
-{ // c167
-u32 // c168
-Tail // c169
-, repeat // c171a
-  // c171b
-char[ // c172
-4 // c173
-] // c174
-msgKind // c175a
-  // c175b
-, repeat // c177a
-  // c177b
-Logout // c178
-, } // c180
-")).
-Eval vm_compute in ("<<<M837>>>" ++ check (runes_of_ascii "/// triple
-packet  options1
-    { @leftPad( '\x00'	) @rightPad( )	@rightPad
-(	'0' ) repeat BodyLength	{a1  falsey`u8 x,`//x
-,} , float32 calculatedFrom,	match trueish as
-    len{ ""a	b"" : //x
-Packet 7  :options1 ,
-7
-// trailing space 
-//x
-: _x , [ ""`tick`"" , 3,""" ++ [128512]%N ++ runes_of_ascii """	,
-// packet A { u8 x, }
-// @lengthOf(
-1
-, """ ++ [28040; 24687]%N ++ runes_of_ascii """,
-    0123456789 ,
-""{,}""
-    ,
-    ""1""]
-:
-    pack  , ""CRC32"": i8i8 , ""// no comment"" : trueish } ,metadata
-rootA `" ++ [28040; 24687; 31867; 22411]%N ++ runes_of_ascii "` , i32
-x_y_z `two words` ,
-    repeat i32 x_y_z
-`" ++ [28040; 24687; 31867; 22411]%N ++ runes_of_ascii "`  ,
-@leftPad
-    ( '0' ) @leftPad( '0'
-    )x @calculatedFrom(
-/// triple
-// trailing space 
-""\n"" ) `{ , }` ,
-@tag( 1 )
-    //
-    repeat u32 asx
-    ,	u8x @lengthOf( packetx
-)`two words` , } packet int{
-    zchar[
-// `tick` ""quote"" 'q'
-// c
-65535
-] leftPad
-, @lengthOf( /// triple
-repeatCount
-    ) @tag( 0123456789 )match
-    lengthOf  as // a // b
-calculatedFrom { [ ""a\\""
-] :
-    trueish
-,
-""x y"" : A, """ ++ [233]%N ++ runes_of_ascii "t" ++ [233]%N ++ runes_of_ascii """ :
-options1 , }
-    , string
-    uint8x
-`it's` ,
-    repeat uint16
-u8x  , } packet zchar
-{ // a // b
-zchar[ 255 ]
-    chars @calculatedFrom(  ""packet"" ) ,	match
-    BodyLength as //x
-x_y_z
-    { ""\n"" :u128 , 00 :Packet
-,
-}
-    ,@leftPad
-( '\x00'
-)repeat o
-{ Z9_ @lengthOf(asx )
-, }
-    , // trailing space 
-@calculatedFrom(""" ++ [28040; 24687]%N ++ runes_of_ascii """ )repeat
-    // `tick` ""quote"" 'q'
-    u64 trueish , i32
-charz,x	`tab	here`
-,
-    string // c
-u128// a // b
-`// not a comment` ,
-len {
-match chars as Foo
-// @lengthOf(
-// packet A { u8 x, }
-{
-    """":u""packet"" : matchKey , ""// no comment"" :
-packetx [
-65535
-,""it's"", """ ++ [128512]%N ++ runes_of_ascii """ , 0123456789 // trailing space 
-, ""a\\"" ,  ""a\\"" ,""" ++ [28040; 24687]%N ++ runes_of_ascii """ ,
-    ""{,}""  ]:
-len,
-    // " ++ [27880; 37322]%N ++ runes_of_ascii "
-    ""\" ++ [233]%N ++ runes_of_ascii """: msg_type , ""abc"":
-o // @lengthOf(
-} ,} ,
-@calculatedFrom( """" ) match // trailing space 
-falsey
-    as calculatedFrom
-    { // `tick` ""quote"" 'q'
-[
-    1
-, """ ++ [233]%N ++ runes_of_ascii "t" ++ [233]%N ++ runes_of_ascii """ ]
-    : body , ""`tick`""
-: calculatedFrom , 3
-    :  x_y_z ,""it's"":Packet ,[ 007  ] : Foo , """ ++ [128512]%N ++ runes_of_ascii """ : Foo ,} , // " ++ [27880; 37322]%N ++ runes_of_ascii "
-match leftPad as stringy {
-""a\\""  : T,
-} , }")).
-Eval vm_compute in ("<<<M352>>>" ++ check (runes_of_ascii "MetaData	matchKey
-{ float64	string_, string pack`doc`	,Foo float `` ,x chars
-    `crlf
-line`
-    ,
-} packet Header { float64 lengthOf //x
-@lengthOf(
-    calculatedFrom ) `crlf
-line` , zchar[1 ]
-int @lengthOf( int),u8  string_,
-//x
-// c
-@tag(3 // packet A { u8 x, }
-) @tag( 10 // c
-)
-i64_
-    // " ++ [128512]%N ++ runes_of_ascii " emoji
-    {repeat	i16 body
-    //x
-    `crlf
-line` , f64 repeatCount @lengthOf( x_y_z )
-    , x{ char[ 0 ]// a // b
-int , }
-, match u128
-    as
-    MetaDataX { [ 007 ,
-    //x
-    ""// no comment"" ] : string_,
-// a // b
-// trailing space 
-0 : int,  [  42 , ""`tick`"" , 0123456789
-, ""\" ++ [233]%N ++ runes_of_ascii """  , ""1"", ""packet"" , 255
-, ""{,}"" ]:	crc ,
-0123456789  :	rootA [ ""\n"" ] :
-    // packet A { u8 x, }
-    charz , [ ""packet"", 10 ]
-:T , }
-, }//
-, // packet A { u8 x, }
-repeat
-zchar[ 007  ]matchKey `crlf
-line` ,
-    @rightPad // `tick` ""quote"" 'q'
-(
-    '0' )
-    // `tick` ""quote"" 'q'
-    repeat char[ 00	]
-pack`{ , }` , // " ++ [27880; 37322]%N ++ runes_of_ascii "
-i8i8
-, f32a
-    { u128
-    packetx , MetaDataX msg_type ,
-char[ 65535] falsey `" ++ [28040; 24687; 31867; 22411]%N ++ runes_of_ascii "`
-, }
-    , } packet uint8x { uint32 msg_type`u8 x,` , char[ 65535 ] // c
-o // trailing space 
-`u8 x,` , @rightPad
-( '\x00' )
-int @lengthOf( int )`crlf
-line` ,}packet Logon{ char[] string_ ,
-    string repeatCount// trailing space 
-@lengthOf( _x
-)
-    // packet A { u8 x, }
-    ,  @calculatedFrom( ""\" ++ [233]%N ++ runes_of_ascii """ )@lengthOf( trueish) @tag(
-//
-// `tick` ""quote"" 'q'
-007 ) i8
-    a1
-@lengthOf(
-BodyLength
-) `it's` ,	@rightPad ( ' ') @calculatedFrom(
-    ""{,}"" // c
-) @lengthOf(
-    // `tick` ""quote"" 'q'
-    zchar
-// c
-//	t
-) repeat
-    _x {
-    len
-, repeat	uint16
-    /// triple
-    trueish `say ""hi""` , u16 roots `two words` ,},} // `tick` ""quote"" 'q'")).
-Eval vm_compute in ("<<<M3886>>>" ++ check (runes_of_ascii "// top
-    options 
-// c0
+Eval vm_compute in ("<<<M1573>>>" ++ check (runes_of_ascii "options	{	ArrayPrefixLenType =
 
-{  // c1a
-  // c1b
-	LittleEndian 	 // c2
-      = // c3
-false	// c4a
-
-// c4b
-;
-// c5
-
-ArrayPrefixLenType // c6a
-  // c6b
-		=
-
-    u8
-	; 	 // c9
-    	FixedStringPadChar  
-  // c10
-
-	=  // c11
-  	'0'
-
-    // c12
-  ; // c13a
-		// c13b
-}
-// c14
-  packet // c15
-    Order	// c16a
-    // c16b
-	{
-
-    InNote94  // c18
-	  {// c19
-f32	// c20
-	f1 
-	// c21
-
-,
-    // c22
-f64 Side2  // c24
-	  , 	 // c25
-    	repeat 	 // c26a
-	// c26b
-	InTail47// c27a
-    	// c27b
-		{	// c28a
-	// c28b
-
-char[] // c29a
-
-// c29b
-		seqNo ,	// c31
-    char[] Tail
-
-    ,// c34a
-	// c34b
-char[]	// c35
-	lastPx 
-// c36
-  , 
-    // c37
-
-} ,
-}	// c40a
-
-// c40b
-	, 
-  // c41
-zchar[7	// c43
-	]
-    f1  // c45
-  	,	// c46
-    u8	// c47a
-// c47b
-	Side2  ,// c49
-  }// c50a
-	// c50b
-	root
-	packet	// c52
-    Reject	// c53a
-    // c53b
-	{ 
-
-    // c54
-
-repeat  // c55a
-// c55b
-	char[// c56a
-  // c56b
-4
-	// c57
-	]// c58
-Flags
-// c59
-  , // c60
-	InPrice63  {
-InSeqno41 {	repeat  // c65a
-    	// c65b
-	i8 
-OrderId
-
-// c67
-  ,
-repeat 	 // c69a
-
-	// c69b
-      i32 // c70a
-		// c70b
-  	clOrdID
-    // c71
-  , char[ // c73
-	9
-// c74
-  	] tag7	// c76
-,	// c77a
-	  // c77b
-	  char[]// c78a
-// c78b
-lastPx// c79a
-
-  // c79b
-, 	 // c80
-		} 	 // c81
-,  // c82a
-    // c82b
-	Order , 	 // c84a
-  	// c84b
-  uint8 Side2  
-      // c86
-  ,// c87a
-	  // c87b
-	}
-
-    , 
-    // c89
-  } 
-  // c90
- 
-")).
-Eval vm_compute in ("<<<M3630>>>" ++ check (runes_of_ascii "// top
-options
-    // c0
-{ StringPrefixLenType // c2a
-  // c2b
-= // c3
-u8 // c4a
-  // c4b
-;
-    // c5
-ArrayPrefixLenType
-    // c6
-= u32 // c8
-; // c9a
-  // c9b
-} packet
-    // c11
-Quote // c12a
-  // c12b
-{ // c13
-u32 // c14
-Ref , // c16
-InNote74 { // c18
-u8 // c19
-pad0
-    // c20
-, // c21a
-  // c21b
-} ,
-    // c23
-}
-    // c24
-packet Ack { // c27a
-  // c27b
-repeat // c28a
-  // c28b
-string // c29
-OrderId
-    // c30
-, } // c32
-packet // c33a
-  // c33b
-Logout // c34a
-  // c34b
-{
-    // c35
-zchar[ // c36
-7 ] // c38
-venue , // c40
-char[ // c41a
-  // c41b
-12
-    // c42
-]
-    // c43
-Px
-    // c44
-, // c45
-string // c46
-count // c47a
-  // c47b
-,
-    // c48
-char[] Tail // c50a
-  // c50b
-,
-    // c51
-char[] // c52a
-  // c52b
-Qty // c53a
-  // c53b
-, // c54a
-  // c54b
-Quote // c55
-, // c56
-} root packet
-    // c59
-Trade
-    // c60
-{
-    // c61
-zchar[
-    // c62
-2
-    // c63
-]
-    // c64
-price , // c66
-u32 // c67
-x // c68a
-  // c68b
-, // c69a
-  // c69b
-u32 // c70
-lastPx @lengthOf(
-    // c72
-Body
-    // c73
-) // c74
-,
-    // c75
-match // c76a
-  // c76b
-x // c77
-as Body // c79a
-  // c79b
-{ // c80
-148
-    // c81
-: // c82a
-  // c82b
-Ack // c83a
-  // c83b
-, 171
-    // c85
-: // c86a
-  // c86b
-Quote // c87
-, 15
-    // c89
-: // c90
-Logout
-    // c91
-, // c92a
-  // c92b
-} // c93
-,
-    // c94
-} ")).
-Eval vm_compute in ("<<<M1183>>>" ++ check (runes_of_ascii "options {
-    trueish
-=// a // b
-'0'
-/// triple
-//
-;} options  { x_y_z
-    =	'0'
-u
-= true;
-    asx
-= ""a	b"" ;
-u128= 4294967296  len
+u16
+    ;FixedStringPadFromLeft 
 =
-    true
-    ;	} packet u128 { A  { f32 repeatCount
-@lengthOf(
-    tag) , u32 tag , } ,
-// " ++ [128512]%N ++ runes_of_ascii " emoji
-// " ++ [128512]%N ++ runes_of_ascii " emoji
-repeat
-zchar
-    zchar`u8 x,` , match
-    u as	a1 { [ // " ++ [128512]%N ++ runes_of_ascii " emoji
-""a\""b"" ,""" ++ [28040; 24687]%N ++ runes_of_ascii """]: Z9_ , 10 :int ,	[ ""\n"" , ""CRC32"" , 007
-,
-// " ++ [128512]%N ++ runes_of_ascii " emoji
-// " ++ [128512]%N ++ runes_of_ascii " emoji
-""" ++ [28040; 24687]%N ++ runes_of_ascii """ ,
-""packet""
-// " ++ [27880; 37322]%N ++ runes_of_ascii "
-// `tick` ""quote"" 'q'
-, 255 ,
-    //
-    1 ,
-    255 ]  : matchKey
-, }//
-, char[/// triple
-10 ]Z9_ // trailing space 
-@calculatedFrom( """ ++ [128512]%N ++ runes_of_ascii """ )  `" ++ [28040; 24687; 31867; 22411]%N ++ runes_of_ascii "`,
-    }
-packet o{ match i64_
-    as crc
-{ ""CRC32"" : MetaDataX // trailing space 
-, }
-, a1 @lengthOf( Pad ) ,
-packetx @calculatedFrom(
-""" ++ [28040; 24687]%N ++ runes_of_ascii """
-    // " ++ [27880; 37322]%N ++ runes_of_ascii "
-    ) // a // b
-`{ , }`
-,
-a1 { Packet // trailing space 
-@lengthOf( T	) `two words`, metadata
-{ match crc
-as matchKey{
-[""CRC32"" ,
-""// no comment"", ""CRC32"" ,
-    65535 ]
-    :zchar 3: i64_ ,
-} , repeat
-stringy , }, x_y_z Pad// " ++ [128512]%N ++ runes_of_ascii " emoji
-,
-}
-,
-    zchar[	1
-    ] i64_ @calculatedFrom( ""// no comment""
-)
-    , @rightPad ( ' '// packet A { u8 x, }
-)
-//
-// " ++ [128512]%N ++ runes_of_ascii " emoji
-i8 float
-@lengthOf( //x
-tag )	,
-    @tag(  255  )
-    match rootA as
-    A { ""`tick`"" : asx,  } ,}")).
-Eval vm_compute in ("<<<M1391>>>" ++ check (runes_of_ascii "options {
-	StringPrefixLenType = u16;
-	ArrayPrefixLenType = u16;
+
+true
+;	JavaPackage =  ""com.example.msg""
+	;
+GoPackage =  ""msg"";	GoModule =""example.com/msg"" ;  }	MetaData Meta 
+{u32 SeqNum`sequence number` 
+,	char[ 8 
+]
+	Symbol 
+`symbol`
+
+    ,
+	zchar[	5 ]ZSym `z symbol`,	string
+
+Note ,
+
+    Symbol  AltSymbol
+
+`alias of symbol` ,	f64  Price	,}packet
+	Inner {  u8	a	,
+
+    i16
+
+    b
+, string	c ,
 }
 
-packet SampleBinary {
-	uint16 MsgType `" ++ [28040; 24687; 31867; 22411]%N ++ runes_of_ascii "`,
-	u16 BodyLenght @lengthOf(Body) `" ++ [28040; 24687; 20307; 38271; 24230]%N ++ runes_of_ascii "`,
-	match MsgType as Body {
-		1 : Logon,
-		2 : Logout,
-		3 : Heartbeat,
-		4 : RiskControlRequest,
-		5 : RiskControlResponse,
-	},
-		@calculatedFrom(""CRC32"")
-	u32 Ckecksum `" ++ [26657; 39564; 21644]%N ++ runes_of_ascii "`,
-}
-
-packet Logon {
-	 @leftPad('0')
-	char[10] UserName `" ++ [29992; 25143; 21517]%N ++ runes_of_ascii "`,
-	string Password `" ++ [23494; 30721]%N ++ runes_of_ascii "`,
-	uint64 ClientId `" ++ [23458; 25143; 31471]%N ++ runes_of_ascii "ID`,
-	u16 HeartbeatInterval `" ++ [24515; 36339; 38388; 38548]%N ++ runes_of_ascii "`,
-}
-
-packet Logout {
-	  @rightPad('0')
-	char[10] UserName `" ++ [29992; 25143; 21517]%N ++ runes_of_ascii "`,
-	uint64 ClientId `" ++ [23458; 25143; 31471]%N ++ runes_of_ascii "ID`,
-}
-
-packet Heartbeat {
-}
-
-packet RiskControlRequest {
-	string UniqueOrderId `" ++ [21807; 19968; 35746; 21333; 21495]%N ++ runes_of_ascii "`,
-	char[16] ClOrdID `" ++ [23458; 25143; 35746; 21333; 21495]%N ++ runes_of_ascii "`,
-	char[3] MarketID `" ++ [24066; 22330]%N ++ runes_of_ascii "id`,
-	char[12] SecurityID `" ++ [35777; 21048; 20195; 30721]%N ++ runes_of_ascii "`,
-	char Side `" ++ [20080; 21334; 26041; 21521]%N ++ runes_of_ascii "`,
-	char OrderType `" ++ [35746; 21333; 31867; 22411]%N ++ runes_of_ascii "`,
-	u64 Price `" ++ [20215; 26684]%N ++ runes_of_ascii "`,
-	u32 Qty `" ++ [25968; 37327]%N ++ runes_of_ascii "`,
-	repeat string ExtraInfo `" ++ [38468; 21152; 20449; 24687]%N ++ runes_of_ascii "`,
-	repeat SubOrder {
-			char[16] ClOrdID `" ++ [23376; 35746; 21333; 21495]%N ++ runes_of_ascii "`,
-			u64 Price `" ++ [23376; 35746; 21333; 20215; 26684]%N ++ runes_of_ascii "`,
-			u32 Qty `" ++ [23376; 35746; 21333; 25968; 37327]%N ++ runes_of_ascii "`,
-		},
-}
-
-packet RiskControlResponse {
-	string UniqueOrderId `" ++ [21807; 19968; 35746; 21333; 21495]%N ++ runes_of_ascii "`,
-	i32 Status `" ++ [29366; 24577]%N ++ runes_of_ascii "`,
-	string Msg `" ++ [32467; 26524; 20449; 24687]%N ++ runes_of_ascii "`,
-	repeat Detail,
-}
-
-packet Detail {
-	string RuleName `" ++ [35268; 21017; 21517; 31216]%N ++ runes_of_ascii "`,
-	u16 Code `" ++ [21407; 22240; 20195; 30721]%N ++ runes_of_ascii "`,
-}")).
-Eval vm_compute in ("<<<M153>>>" ++ check (runes_of_ascii "options
-// packet A { u8 x, }
-/// triple
-{	}MetaData	zchar// @lengthOf(
+    packet Inner2
 {
-    A i64_
-`crlf
-line` , char[]string_ `
-` , Packet
-stringy `a\` , // `tick` ""quote"" 'q'
-char[ 1] i8i8 // @lengthOf(
-,float32
-options1 `{ , }` ,} packet
-    a1{@lengthOf( o ) //x
-o { calculatedFrom @calculatedFrom(
-    //x
-    ""a\\""
-) , } , @lengthOf(
-a1) repeat i8i8
-    stringy ,int8	pack , @lengthOf( u8x
-    ) string
-packetx @calculatedFrom( ""`tick`"" ) `` , @lengthOf( Header ) @tag( 0123456789 ) @calculatedFrom(
-""CRC32"" ) repeat BodyLength `two words` , @lengthOf( T)  zchar[ 1//
-] repeatCount@lengthOf( o	) ,
-    match // " ++ [128512]%N ++ runes_of_ascii " emoji
-As as options1 { ""1"":
-    o, ""a\\"": crc
-,[ 0123456789, ""a	b"" // `tick` ""quote"" 'q'
-, """ ++ [128512]%N ++ runes_of_ascii """ ,	65535
-, """ ++ [128512]%N ++ runes_of_ascii """
-    // `tick` ""quote"" 'q'
-    ,  ""1""	,
-00 ] : x , [ ""abc""	,
-""\n""
-, 4294967296 ,
-10 ,
-    //x
-    0123456789
-,	42 , """ ++ [128512]%N ++ runes_of_ascii """, 3 ] :
-    // " ++ [128512]%N ++ runes_of_ascii " emoji
-    msg_type } , match
-u8x as
-lengthOf
-    { [""x y"" , ""{,}""// a // b
-] :	asx // `tick` ""quote"" 'q'
-4294967296  : chars,
-    ""CRC32"" : a1 ""a	b"" :metadata ,  7 : zchar  , }
-, }")).
-Eval vm_compute in ("<<<M4496>>>" ++ check (runes_of_ascii "// `tick` ""quote"" 'q'
-packet msg_type {
-    // c
-    uint8 leftPad,
-}
 
-packet roots {
-    @tag(3)
-    // a // b
-    // `tick` ""quote"" 'q'
-    string_ @lengthOf(body),
-    Header @lengthOf(Z9_),
-    repeat zchar[007] roots,
-    string_ msg_type `crlf
-    line`,
-    Logon @lengthOf(pack) `say ""hi""`,
-    @rightPad('\x00')
-    @leftPad('0')
-    repeat u8 float `it's`,
-    @calculatedFrom(""\n"")
-    @lengthOf(falsey)
-    msg_type {
-        match Packet as tag {
-            [10, 007] : int,
-            4294967296 : asx,
-        },
-        uint32 string_ @lengthOf(_x) `two words`,
-        _x,
-    },
-    f32a {
-        f32 body,
-        uint16 u128,
-        matchKey @lengthOf(Packet),
-    },
-    repeat zchar[0123456789] float `say ""hi""`,
-    f32 i8i8 `{ , }`,
-}
+u8
+a2
 
-root packet options1 {
-    @tag(0)
-    packetx,
-    repeat float64 BodyLength,
-}
+    ,	char[
+    3
+]
+	c2,}
 
-options {
-    Pad = true;
-    crc = 007;// @lengthOf(
-}
-
-MetaData packetx {
-    roots Packet `tab	here`,// " ++ [128512]%N ++ runes_of_ascii " emoji
-    asx len,
-}")).
-Eval vm_compute in ("<<<M1057>>>" ++ check (runes_of_ascii "
-packet
-// c
-// @lengthOf(
-int{ @lengthOf( //
-pack
-    ) f64 asx @calculatedFrom( ""abc"" )
-    , @calculatedFrom( ""\" ++ [233]%N ++ runes_of_ascii """ ) f64 //	t
-u
-`// not a comment`
-,// " ++ [128512]%N ++ runes_of_ascii " emoji
-@lengthOf( stringy) @tag( 3 )
-    @rightPad  ()repeat float32
-    rootA , msg_type@lengthOf(
-    packetx
-    // " ++ [27880; 37322]%N ++ runes_of_ascii "
-    ), @lengthOf( repeatCount
-) //x
-@calculatedFrom(
-""`tick`"" )  float lengthOf ,
-} packet Pad { repeat uint8x body`u8 x,` ,	zchar	{
-    u8 trueish, float `
-` ,
-    } , @lengthOf(
-uint8x
-) @lengthOf( //x
-float ) u64 T @calculatedFrom( ""// no comment"" ) , @rightPad ()
-    repeat options1//x
-int ,
-@tag( 00
-// c
-// c
-)
-    @lengthOf( string_
-// c
-/// triple
-)
-@lengthOf( f32a	)
+packet 
+Logon
+{ u8 
+x, 
 string
-/// triple
-//	t
-u , match
-    // trailing space 
-    x as uint8x
-    {[
-    ""it's"" , ""x y""
-, ""it's""  ] : // " ++ [128512]%N ++ runes_of_ascii " emoji
-i64_	,// c
+user ,	repeat
+
+    u16
+	codes,
 }
-    ,} root packet
-trueish{ i8i8`line1
-line2` , } // " ++ [27880; 37322]%N ++ runes_of_ascii "
-packet tag { //	t
-float64 // packet A { u8 x, }
-Foo
-    `` , }
-")).
-Eval vm_compute in ("<<<M3981>>>" ++ check (runes_of_ascii "options {
+	packet
+Logout
+    { u16
+
+    reason
+, }
+
+    packet
+    Empty{
+
 }
+root
 
-packet falsey {
-    i64 calculatedFrom @calculatedFrom(""a\\"") `it's`,
-    char[00] falsey,
-    @calculatedFrom(""1"")
-    @calculatedFrom(""{,}"")
-    i32 float,
-    @tag(3)
-    @calculatedFrom(""CRC32"")
-    int64 options1 @lengthOf(roots) `two words`,
-    @calculatedFrom(""a\\"")
-    repeat trueish {
-        repeat charz,
-        trueish tag `two words`,
-        repeat u64 Logon `" ++ [28040; 24687; 31867; 22411]%N ++ runes_of_ascii "`,
-    },
-    @leftPad('0')
-    // " ++ [128512]%N ++ runes_of_ascii " emoji
-    @rightPad(' ')
-    //	t
-    //
-    u roots,
-    repeat A {
-        i32 int @lengthOf(zchar) `" ++ [233]%N ++ runes_of_ascii "`,
-    },
-    u64 A,
-    @tag(10)
-    char[] u8x,
-    zchar[10] pack @calculatedFrom(""1"") `say ""hi""`,
-}
+packet
+	Msg  {
 
-packet Z9_ {
-    // " ++ [27880; 37322]%N ++ runes_of_ascii "
-    @leftPad('0')
-    repeat As charz,
-    body @calculatedFrom(""it's"") `crlf
-        line`,
-    // " ++ [27880; 37322]%N ++ runes_of_ascii "
-    @leftPad('0')
-    zchar[4294967296] A @calculatedFrom(""packet"") `" ++ [233]%N ++ runes_of_ascii "`,
-    repeat body Header `" ++ [233]%N ++ runes_of_ascii "`,
-}")).
-Eval vm_compute in ("<<<M4399>>>" ++ check (runes_of_ascii "
-MetaData
-    crc
-    {} packet
+u8
+    su8,  uint8
+    luint8  , 
+u16
+    su16
+,
+	uint16 luint16	,
+    u32
 
-options1	{ u32 int 
-@lengthOf(
-int) ,@leftPad 
-  /// triple
-( '\x00'	)
-	repeat  string
+    su32,uint32
+	luint32
+    , u64
+su64
 
-uint8x,
-@lengthOf(
-T
+    ,uint64
+	luint64 , 
+i8
+si8
+,
+int8
+lint8
+
+, i16  si16
+
+,
+	int16
+lint16 ,	i32  si32
+
+    ,
+int32
+    lint32,i64
+si64
+
+    ,	int64 
+lint64 , f32
+sf32
+
+    ,
+float32
+    lfloat32
+,
+f64
+	sf64,
+	float64 
+lfloat64
+,
+	char[6
+    ]
+
+fsplain
+,
+@leftPad
+
+( '0' 
+)char[ 4
+
+]
+fs0
+
+    ,@rightPad( '0')char[ 5
+
+    ] 
+fs1
+    ,@leftPad
+
+(' '
 ) 
-zchar
-trueish ,
+char[	6
+	]
+    fs2 
+,@rightPad ( ' '
+	)	char[ 7  ]
+    fs3
+,
 
-@leftPad (  ) int32	// a // b
-i8i8 @lengthOf(
-u8x
-// " ++ [27880; 37322]%N ++ runes_of_ascii "
+@leftPad
+
+    (
+'\x00' )
+	char[
+
+    8]
+fs4, @rightPad (
+'\x00'
 )
+
+char[
+9
+]
+
+fs5,	@leftPad (
+    )char[
+	10] fs6
+    , 
+@rightPad
+(
+	) char[ 11 ]	fs7,
+zchar[7 ]  fz  , 
+@leftPad  ( '0'
+) zchar[
+
+    3  ]  fzl0,string
+	s1
+    `doc`
+
+,char[]
+s2
+, Inner
+
+,
+
+    Sub { u8  q, string 
+w , Deep
+    {u16	z
+	,
+
+    repeat
+i32 
+zs
+
+    ,} 
+,
+    } , repeat	u8	ru8,
+
+repeat 
+u16
+ru16,
+    repeat 
+u32
+
+ru32
+	,repeat
+
+    u64
+
+    ru64
+
+    , repeat
+
+i8	ri8
+,
+
+repeat i16	ri16 , 
+repeat  i32
+
+ri32
+    ,
+
+    repeat
+i64 
+ri64 ,  repeat
+f32
+	rf32,
+repeat
+
+f64 rf64
+
+,
+
+repeat
+string
+
+rstr ,
+
+    repeat char[]
+
+rstr2
+,
+repeat
+	char[	3
+
+    ] rfs
+    ,
+    repeat
+zchar[ 3
+
+    ]
+    rfz ,repeat  Inner2
+
+,repeat	Grp
+{
+    u8 k
+
+,
+char[ 2	]v  ,
+
+} ,	SeqNum
+
+,	SeqNum
+	seq2
+,
+
+    repeat	SeqNum 
+seqs ,
+    Symbol,
+
+    AltSymbol
+alt	,
+	ZSym	, 
+Note,
+repeat
+
+    Symbol
+    syms
+    ,
+
+    Price 
+px
+
+,
+
+    u16
+MsgType
+
+, u32  BodyLen 
+@lengthOf( Body)
+
+    ,
+    match
+
+    MsgType
+
+    as
+
+Body
+{	1 :	Logon  , 
+[
+
+2
+    , 3
+
+    ]
+:Logout
+	,7
+
+    : Logon	,
+9 : Empty 
+,
+	}
+    ,
+    u32 Checksum@calculatedFrom( ""CRC32""
+
+    ) , 
+}
+")).
+Eval vm_compute in ("<<<M2094>>>" ++ check (runes_of_ascii "packet  uint8x  {
+match
+Pad
+as  // " ++ [128512]%N ++ runes_of_ascii " emoji
+    repeatCount {	[
+
+    0
+
+    ]
+: lengthOf , [  ""// no comment""  ]
+
+:metadata,
+},metadata  
+  // trailing space 
+	//
+,
+
+    zchar[/// triple
+1] 
+trueish	//	t
+	, 
+@calculatedFrom(
+
+""a\""b""
+)
+
+match //x
+    roots
+as
+
+f32a
+{ 4294967296
+: i64_
+
+,
+	""it's"" : a1
+
+,[  
+      // trailing space 
+    00,
+
+0123456789 ]
+
+:
+    As, 255  : Packet,""{,}""
+	: T 	 /// triple
+    0 
+: falsey
+}
+    ,	body 
+@calculatedFrom(  ""\n"" 
+    // trailing space 
+      )
+
+    ,	@calculatedFrom(
+	""" ++ [128512]%N ++ runes_of_ascii """ )
+    @tag(  10 ) char[10 ]
+    trueish
+`doc`,  @tag( 255
+
+    )
+repeat  Z9_ 
+{
+    asx
+	chars
+
+    `// not a comment`  ,	} ,
+	@lengthOf(Packet  ) u16 crc
+
+, }  
+  // `tick` ""quote"" 'q'
+      options	{  BodyLength
+
+    =
+
+    i32	;	x	// " ++ [128512]%N ++ runes_of_ascii " emoji
+
+=  255 ;u
+
+    =
+
+    3	}options{
+    } packet  calculatedFrom  {}
+//x
+	root
+
+packet
+
+    Header { Pad
+{
+    repeatCount 
+,
+uint16 zchar, match
+
+msg_type
+
+    as  pack 
+
+/// triple
+{
+""abc"" :
+	repeatCount, 
+""{,}""	:
+    repeatCount ""a	b"" :
+calculatedFrom
+	}	, repeat string
+    Logon 
+`a\` ,	}	, @lengthOf(
+
+x_y_z
+)
+
+match  tag	as	repeatCount
+
+{
+
+    007 :BodyLength  , 
+[
+    //	t
+    """ ++ [28040; 24687]%N ++ runes_of_ascii """ ]
+
+:
+BodyLength
+
+    42
+:
+
+string_ ""// no comment"" 
+    // trailing space 
+		/// triple
+  	:	//
+
+Z9_  , 4294967296 :
+	// " ++ [128512]%N ++ runes_of_ascii " emoji
+_x
+	}, f64 u
+`it's` , zchar[
+    00 
+] f32a`doc`  ,
+	match
+    i64_ as
+	Logon
+    {
+
+    4294967296// a // b
+	: metadata
+    ,	},
+	char[1
+    ] Pad
+	,zchar[
+    0123456789
+
+    ] float  // @lengthOf(
+	``	,
+}
+
+")).
+Eval vm_compute in ("<<<M1536>>>" ++ check (runes_of_ascii "options {
+    StringPrefixLenType = u16;
+    ArrayPrefixLenType = u8;
+    FixedStringPadFromLeft = true;
+    FixedStringPadChar = ' ';
+}
+packet Quote {
+    int64 OrderId,
+    char[] Ref,
+    @leftPad('0') char[5] price,
+}
+packet Heartbeat {
+    zchar[3] venue,
+    string Flags,
+}
+packet Trade {
+    repeat InTag787 {
+        i32 venue,
+        char[5] sym,
+        repeat InPx98 {
+            char[11] Qty,
+            Heartbeat,
+            char[] price,
+            u32 x,
+            float64 count,
+            repeat Quote,
+        },
+        zchar[7] Note,
+        repeat char[1] Tail,
+    },
+    repeat char[2] seqNo,
+    InTail55 {
+        repeat Quote,
+        string msgKind,
+        InPx18 {
+            char[] count,
+            repeat Quote,
+            uint16 Qty,
+        },
+        char[4] seqNo,
+        repeat Heartbeat,
+        repeat string sym,
+    },
+    repeat Quote,
+    Heartbeat,
+    @leftPad(' ') char[10] OrderId,
+}
+root packet Fill {
+    Heartbeat,
+    uint32 count,
+    u8 OrderId,
+    match OrderId as Body {
+        96 : Quote,
+        195 : Trade,
+        187 : Heartbeat,
+    },
+    u32 venue @calculatedFrom(""CR\
+C32""),
+}
+")).
+Eval vm_compute in ("<<<M2111>>>" ++ check (runes_of_ascii "
+packet Pad  // " ++ [27880; 37322]%N ++ runes_of_ascii "
+	{
+@tag(65535
+	) repeat
+	char[
+//	t
+
+4294967296] 
+o `u8 x,` 
+,@calculatedFrom(
+
+    ""x y"")
+	metadata  // c
+
+  @lengthOf(	repeatCount
+
+    ) 
+`tab	here`  , 
+}packet
+u128
+	{
+    // packet A { u8 x, }
+  // " ++ [128512]%N ++ runes_of_ascii " emoji
+    	repeat 	 // " ++ [128512]%N ++ runes_of_ascii " emoji
+  zchar[
+
+10
+	] _x  // " ++ [27880; 37322]%N ++ runes_of_ascii "
+
+, 	 /// triple
+
+	} 
+options
+
+    {  /// triple
+      msg_type = true	;
+}
+	packet
+
+tag
+
+    {	// c
+		@tag(  7
+)i32
+
+f32a	@lengthOf(  u8x 
+)
+    `two words` , string 
+Foo  @lengthOf(
+Foo
+    ),	@rightPad
+	( '0'	)
+match As as
+
+// @lengthOf(
+// `tick` ""quote"" 'q'
+    	crc	// a // b
+  {
+	"""" :float
+, //	t
+    	},	repeat	i16
+	i8i8
+    ,
+	@rightPad  /// triple
+    ('0'	)  repeat 
+u128 {
+
+i64
+tag @calculatedFrom(
+
+""" ++ [28040; 24687]%N ++ runes_of_ascii """
+) ,  i8i8
+@calculatedFrom(  // " ++ [27880; 37322]%N ++ runes_of_ascii "
+
+""{,}""  )
+`it's`	,
+repeat  string 
+rootA	/// triple
+	, 
+}  ,
+repeat	string
+	chars
+
+    ,
+asx
+,match
+calculatedFrom
+as calculatedFrom
+{ ""a\""b"": 
+Logon 
+""a	b""
+    :
+
+    asx
+
+    },
+char zchar
+	@calculatedFrom(
+""1"" 
+) `say ""hi""`,} ")).
+Eval vm_compute in ("<<<M8>>>" ++ check (runes_of_ascii "packet leftPad
+    { @tag( 3 )
+    @tag( // trailing space 
+255 ) @tag( 7 ) Packet @calculatedFrom(
+    ""\n"" )
+    ,
+    @calculatedFrom(
+//x
+/// triple
+""abc""
+)
+    repeat
+    f32a
+    trueish `// not a comment` ,
+    match
+    /// triple
+    calculatedFrom
+as stringy { [	1
+,
+    // @lengthOf(
+    65535 ] :
+    u  ,}
+// `tick` ""quote"" 'q'
+/// triple
+, zchar[ 10 ] o `` , @lengthOf(calculatedFrom
+)
+char x_y_z ,char[] BodyLength ,stringy o
+`line1
+line2` ,
+@tag( 00 )options1  {// @lengthOf(
+float32 asx
+@lengthOf( roots ) ,
+// " ++ [128512]%N ++ runes_of_ascii " emoji
+// `tick` ""quote"" 'q'
+match Z9_
+as
+int
+    {""{,}""
+: A [ // " ++ [27880; 37322]%N ++ runes_of_ascii "
+""a\""b""  ,
+""it's""
+    ] :	repeatCount ,1 :
+    float , ""a\\"": zchar// `tick` ""quote"" 'q'
+[0 , ""abc"" ,0,  00,
+0
+    ,
+""" ++ [128512]%N ++ runes_of_ascii """ ]: T
+, 0123456789	: As , }
+    , }, @lengthOf(
+    msg_type ) i8
+matchKey , repeat
+len len `a\`
+,	}")).
+Eval vm_compute in ("<<<M1952>>>" ++ check (runes_of_ascii "  root
+packet
+	o{a1 a1,
+	char[
+
+3
+    ] i8i8
+
+    `
+` ,  @calculatedFrom(  ""a\""b"" )  // packet A { u8 x, }
+    repeat 	 /// triple
+Pad, } 
+// `tick` ""quote"" 'q'
+  // `tick` ""quote"" 'q'
+
+packet
+	tag  {
+
+    i8i8@calculatedFrom(""x y""  )	`it's`
+
+    ,
+	@lengthOf(x_y_z )	@calculatedFrom(  
+  //
+
+  //	t
+
+	""a\""b""	)
+
+u 
+{ match a1
+as Logon
+
+{
+""\n""  : Pad
+
+    ,3
+:  body
+
+    ,  """"  : // `tick` ""quote"" 'q'
+Logon
+, ""\n""	:
+	T
+    , ""`tick`"" : tag
+	,
+
+    [
+    """ ++ [233]%N ++ runes_of_ascii "t" ++ [233]%N ++ runes_of_ascii """ /// triple
+	,
+7
 
 , 
-      // c
-		// " ++ [27880; 37322]%N ++ runes_of_ascii "
-    repeatCount 
-@calculatedFrom( ""x y"")
+""a\""b""	, 0123456789
+,""abc""
+, """ ++ [28040; 24687]%N ++ runes_of_ascii """
+    ,
+	0] 
+:
+    Z9_
 
-    , Logon 
-falsey
-,	}options { int =  ""\n"" 	 //	t
-len
-    = true	;
+} ,
 
-    _x =
+char[00
+]//
+	string_
 
-    char As =
-	int16 ; }packet Z9_{
-repeat rootA  ,@lengthOf(
-a1
-    )string_
-
-trueish `" ++ [233]%N ++ runes_of_ascii "` 
-,
-    int8  Foo,
-@tag( 007)repeat	falsey`// not a comment`  /// triple
-  , 
-@tag(0
-    )
-    f64
-	x  @calculatedFrom(  ""a\\"" 
-// c
-
-  ) 
-`// not a comment`
-    ,// `tick` ""quote"" 'q'
-      uint64 Header 
-,	u8
-
-    charz@calculatedFrom(
-
-    """ ++ [128512]%N ++ runes_of_ascii """
-)
-`" ++ [28040; 24687; 31867; 22411]%N ++ runes_of_ascii "` 
-,
-    i32	As @lengthOf(
-	a1  ) 
-`{ , }` 
-,
-
-    @calculatedFrom(	""a	b"") uint16
-	x,
-}")).
-Eval vm_compute in ("<<<M4278>>>" ++ check (runes_of_ascii "  packet
-a1 /// triple
-	{ @lengthOf(	As	)	uint16// " ++ [128512]%N ++ runes_of_ascii " emoji
-  	matchKey
-`line1
-line2`,	}options
-{ pack
-=
-
-    7
-
-} 
-packet
-
-    // " ++ [128512]%N ++ runes_of_ascii " emoji
-  packetx {@calculatedFrom( 
-""packet""
+@lengthOf(	asx
     ) 
-int8 metadata  @lengthOf(metadata 
-) ,
-    @tag(  7
+,  char[
+1
+    ]	falsey
 
-    )
-	lengthOf
-	@lengthOf(
-u128
+, }
+	, match	crc as
 
-    ) // " ++ [128512]%N ++ runes_of_ascii " emoji
-    ,
-	@rightPad(
-
-    )Header 
-@lengthOf(
-msg_type
-	)
-
-    `` 
-,
-	leftPad
-,	}  packet
-	    // packet A { u8 x, }
-    string_
-{} packet f32a {	@leftPad
-    (
-
-'0'
-)
-    @leftPad	(
-' '
-
-/// triple
-  	) @leftPad(
-
-    ' '  )
-
-x_y_z
-
-    { char charz @calculatedFrom( 
-"""" )
-    //	t
-    // trailing space 
-, repeat rootA
-repeatCount
-	,  
-  // packet A { u8 x, }
-repeat u128 f32a `// not a comment`	,
-},  
-  // " ++ [27880; 37322]%N ++ runes_of_ascii "
-  // trailing space 
-  } 	 // packet A { u8 x, }
- 
-")).
-Eval vm_compute in ("<<<M1022>>>" ++ check (runes_of_ascii "//
-packet T
-    { @lengthOf( stringy )
-f64 packetx `a\` ,packetx asx// `tick` ""quote"" 'q'
-,	string matchKey `say ""hi""` , int8 roots ,u32 asx @calculatedFrom(""it's"")
-, @calculatedFrom( ""// no comment""// " ++ [128512]%N ++ runes_of_ascii " emoji
-)
-// " ++ [27880; 37322]%N ++ runes_of_ascii "
-// @lengthOf(
-match i64_ as
-roots
-{ ""// no comment""// trailing space 
-:crc , }	,
-@lengthOf(
-leftPad
-) string u128 `doc`, @lengthOf( asx ) match
-    asx
-as f32a { [10,007 ] : asx , [ 10 , ""1""
-] :
-BodyLength, 1: Logon, }
-    , @calculatedFrom(
-    ""// no comment""
-)
-    @lengthOf(
-    zchar )zchar[ 0123456789] // trailing space 
-T
-    `" ++ [28040; 24687; 31867; 22411]%N ++ runes_of_ascii "`  , char[
-10 ]matchKey``,
-    } MetaData options1
-{ i64
-repeatCount`a\`
-,	f32 calculatedFrom `// not a comment` , char[1]	T , } packet A { // " ++ [128512]%N ++ runes_of_ascii " emoji
-char[ 1 ]u `" ++ [28040; 24687; 31867; 22411]%N ++ runes_of_ascii "` , }
-")).
-Eval vm_compute in ("<<<M4611>>>" ++ check (runes_of_ascii "packet i8i8 {
-    @tag(65535)
-    i8i8,
-    repeat u8 uint8x,
-    zchar[7] u,
-    repeat char[] Packet,
-    @leftPad('\x00')
-    i64_ {
-        x `line1
-        line2`,//x
-    },// a // b
-    repeat Foo {
-        len {
-            match u as _x {
-                42 : tag,
-                [""" ++ [233]%N ++ runes_of_ascii "t" ++ [233]%N ++ runes_of_ascii """] : _x,
-                [7, 4294967296] : Packet,
-            },
-            float64 o `it's`,
-            int64 options1,//	t
-        },
-    },
-    @leftPad('\x00')
-    match x as zchar {
-        255 : o,
-        255 : Logon,
-        0 : Header,
-        007 : msg_type,
-        [
-            ""\n"", 007, ""1"", 255, 4294967296,
-            0, 007
-        ] : int,
-    },
-}// trailing space 
-
-packet As {
-}")).
-Eval vm_compute in ("<<<M242>>>" ++ check (runes_of_ascii "packet
-    uint8x { @tag(	0123456789 // a // b
-) match u as
-As
-    {
-    ""1""
-    :	o ,4294967296 : charz [ ""CRC32""
-    ]	: A , 42: zchar, ""CRC32"" : leftPad //	t
-,
-    """ ++ [28040; 24687]%N ++ runes_of_ascii """// " ++ [128512]%N ++ runes_of_ascii " emoji
-: uint8x, } , }
-    options {
-u128 = uint32
-}
-    packet
-chars
+lengthOf
 {
-    // a // b
-    float @lengthOf( _x ) // `tick` ""quote"" 'q'
-, string
-    chars@lengthOf(
-matchKey
-// @lengthOf(
-// packet A { u8 x, }
-) , match  crc as
-    Z9_ {0123456789 : int
-    ,""x y"" //
-:
-    rootA,	""`tick`""
-    : As,
-    // @lengthOf(
-    } ,@tag(7 )
-Pad @lengthOf( trueish  )`u8 x,`
-,}
-packet float
-{ repeat Packet{ lengthOf {
-    //
-    repeat f32a`it's`
-, } ,	o @lengthOf( calculatedFrom	)  , }
-,}
 
-")).
-Eval vm_compute in ("<<<M576>>>" ++ check (runes_of_ascii "root packet roots  { }packet body{ @lengthOf(Pad ) repeat
-a1
-BodyLength , char[
-7
-    ]
-    stringy ,	zchar[
-255] asx
-, uint8x u128 , } options {Header
-=
-""\" ++ [233]%N ++ runes_of_ascii """ T =""abc""
-;
-    _x
-=zchar[  3 ];
-falsey = 65535;
-A =
-4294967296 } packet x{
-    @leftPad
-    (
-    //
-    ' ') @calculatedFrom( ""a	b"")
-    /// triple
-    @lengthOf(rootA // trailing space 
-)
-float64 rootA `a\` ,  f64 o	, repeat
-pack, @rightPad () uint64	u8x, @lengthOf(
-chars
-)	repeat  f64 _x// packet A { u8 x, }
-`two words` ,// c
-Pad
-Header `it's`,
-zchar[ 00 ] options1 @lengthOf( i8i8	),
-} packet u8x{
-    char[// @lengthOf(
-00 ] string_ @lengthOf( falsey  )
-, }")).
-Eval vm_compute in ("<<<M646>>>" ++ check (runes_of_ascii "  root packet stringy { u
-@calculatedFrom(	""packet""	)
-``,  @calculatedFrom( """ ++ [28040; 24687]%N ++ runes_of_ascii """ ) @lengthOf(//x
-Foo // packet A { u8 x, }
-)@calculatedFrom( // trailing space 
-""abc"" ) u64 zchar ,
-    match body
-// " ++ [128512]%N ++ runes_of_ascii " emoji
-// c
-as
-// trailing space 
-// " ++ [27880; 37322]%N ++ runes_of_ascii "
-body { 0
-:
-charz ""packet"":
-    charz ,
-0123456789
-    : repeatCount , ""\" ++ [233]%N ++ runes_of_ascii """
-:Foo}
-    , repeat string	asx `u8 x,` , } MetaData
-    BodyLength{
-    string Z9_
-,zchar[
-    0123456789
-    ]  Header	,
-    char[65535 ]
-    asx ,zchar[255 ] charz `// not a comment` ,
-f32 crc ,}options	{
-    }packet
-_x{ }packet trueish { @calculatedFrom("""" )x
-, // " ++ [27880; 37322]%N ++ runes_of_ascii "
-} 	 ")).
-Eval vm_compute in ("<<<M859>>>" ++ check (runes_of_ascii "  MetaData
-a1{leftPad Foo `" ++ [233]%N ++ runes_of_ascii "` , u16
-    BodyLength , } packet packetx
-    { } options{ As
-= """" string_=// c
-true ; } //	t
-packet	zchar  { u128 @lengthOf( stringy ) `" ++ [28040; 24687; 31867; 22411]%N ++ runes_of_ascii "` ,
-Z9_
-As `` ,
-    // a // b
-    repeat u128
-body`" ++ [233]%N ++ runes_of_ascii "` , @rightPad	( ' ') @tag( 42 ) match charz
-as a1 {""packet"" :
-i64_	, } , int
-    /// triple
-    @lengthOf( As
-)  `// not a comment`
-//
-//x
-, string body,@calculatedFrom( ""\n"" ) u8 a1, @leftPad( '0'// a // b
-)repeat i64_ `a\` , pack
-    stringy  , zchar[	00 ] len @calculatedFrom(
-//x
-// `tick` ""quote"" 'q'
-""packet"" ) `
-`,// trailing space 
-}
-")).
-Eval vm_compute in ("<<<M988>>>" ++ check (runes_of_ascii "packet
-    pack
-    {	A // a // b
-{ char[
-0  ]msg_type `
-` ,
-} ,@lengthOf( msg_type
-) MetaDataX {
-    int64 u @calculatedFrom(
-""a\""b""  )
-`
-`
-    ,float32// a // b
-i8i8  @calculatedFrom( ""a\\""
-) `it's` ,	match uint8x as matchKey
-    // a // b
-    {""{,}"" :
-i64_ ,
-    42 : T , 3
-:
-x // c
-}	, },@tag(10) @leftPad ( '\x00'
-)
-    zchar { f32a  Foo,}
-    ,
-match x_y_z as
-    falsey{ ""// no comment"" : i64_ ,} , // `tick` ""quote"" 'q'
-} options { uint8x
-    // " ++ [128512]%N ++ runes_of_ascii " emoji
-    =
-    '0' ;	_x
-= false // `tick` ""quote"" 'q'
-f32a =zchar[ 00]
-;
-}
-")).
-Eval vm_compute in ("<<<M849>>>" ++ check (runes_of_ascii "options {float = ' ' Foo =
-""a	b"" A = // packet A { u8 x, }
-i16
-    ; string_ =""it's""} // c
-MetaData float{ charz falsey // " ++ [27880; 37322]%N ++ runes_of_ascii "
-, char[]chars
-, float32
-    Pad , }MetaData repeatCount
-    {
-    char[	65535] // `tick` ""quote"" 'q'
-Header `" ++ [233]%N ++ runes_of_ascii "` // trailing space 
-,
-    float32 Pad
-, u64 len
-    ,
-    // `tick` ""quote"" 'q'
-    lengthOf a1 `{ , }`
-    //	t
-    ,
-    //x
-    }
-options
-    {  leftPad = zchar[ 00] ; charz
-= 10
-    ;options1
-    =
-    // trailing space 
-    string len =zchar[255 ] ; Logon = ""\n""
-    ; }
-")).
-Eval vm_compute in ("<<<M3767>>>" ++ check (runes_of_ascii "root packet lengthOf {
-    @lengthOf(i64_)
-    string repeatCount @calculatedFrom(""" ++ [28040; 24687]%N ++ runes_of_ascii """) `doc`,
-    repeat char[] f32a `two words`,
-    @lengthOf(i64_)
-    char[] a1,//
-    match float as BodyLength {
-        """" : tag,
-        """ ++ [28040; 24687]%N ++ runes_of_ascii """ : roots,
-        ""// no comment"" : A,
-    },
-    metadata,
-    repeat char[0123456789] a1 `a\`,
-    @leftPad('\x00')
-    zchar lengthOf,
-    repeat char[] calculatedFrom,
-    @rightPad('\x00')
-    @rightPad('\x00')
-    i8 BodyLength,
-}
+    4294967296
 
-options {
-}
-
-options {
+    :
+a1	}	, 
 }")).
-Eval vm_compute in ("<<<M711>>>" ++ check (runes_of_ascii "MetaData f32a
-    // " ++ [27880; 37322]%N ++ runes_of_ascii "
-    { msg_type u128 , } options {
-    } // packet A { u8 x, }
-root packet body {
-    Packet `say ""hi""` , string
-pack `doc`
-    ,
-//	t
-//	t
-@tag( 10
-)
-lengthOf{	char[]
-    MetaDataX , u16 uint8x
-    @calculatedFrom( """" )  , uint32 options1
-`{ , }`
-// a // b
+Eval vm_compute in ("<<<M106>>>" ++ check (runes_of_ascii "packet  matchKey
+{
+    } options{ int = ""a\\""
+; lengthOf //	t
+= ""it's"" } MetaData lengthOf { Pad  tag
+    , } root packet
+    x {int @lengthOf(	pack )
+`a\` //
+, string matchKey
+@lengthOf( chars
+    )  `" ++ [233]%N ++ runes_of_ascii "` , repeat repeatCount
+//x
 //
-, _x
-,	} ,
-} packet int{} MetaData
-u128{ x_y_z
-    As ,
-    msg_type int`two words`,
-    // c
-    pack
-repeatCount ,	tag Z9_
-    , calculatedFrom
-chars // a // b
-`crlf
-line`
-    ,
-}
-")).
-Eval vm_compute in ("<<<M695>>>" ++ check (runes_of_ascii "// `tick` ""quote"" 'q'
-options{
-    Pad  =
-'0' } //
-packet
-    zchar{	stringy
-// " ++ [128512]%N ++ runes_of_ascii " emoji
-// " ++ [27880; 37322]%N ++ runes_of_ascii "
-{ match
-x as i64_	{00 : len,/// triple
-""`tick`""
-://x
-body
-, 3 : chars//
-, 7 : uint8x 0123456789:Foo
-,
-} , repeat
-chars i8i8
-,  float32// c
-Logon
-@lengthOf(A ) `tab	here` ,
-} ,} packet
-    //x
-    As  {
-    @lengthOf( i64_)
-    repeat
-    options1{ a1 @calculatedFrom( ""a\\""),
-    }
+{
     // packet A { u8 x, }
-    ,
-@calculatedFrom( ""CRC32"" ) matchKey ,}
-")).
-Eval vm_compute in ("<<<M1088>>>" ++ check (runes_of_ascii "options { int// a // b
-=7 ;float = int64;
-/// triple
-// a // b
-stringy= 3 rootA
-    // packet A { u8 x, }
-    =""CRC32"" x = // c
-true // " ++ [128512]%N ++ runes_of_ascii " emoji
-} options{ A=uint16
-    // @lengthOf(
-    ; metadata = ""1""
-// trailing space 
+    match x_y_z as A
+    {""1"": o	,
+// packet A { u8 x, }
 // `tick` ""quote"" 'q'
-packetx=10// " ++ [128512]%N ++ runes_of_ascii " emoji
-} MetaData Packet { T int	`u8 x,` , o _x
-    ,
-falsey chars ,
-} root packet string_
-{ packetx Pad`a\`
-    , trueish x_y_z ,body , repeat char[ 3]  options1 `it's` , }")).
-Eval vm_compute in ("<<<M1260>>>" ++ check (runes_of_ascii "
-packet As { repeat string
-    Logon `two words` , @calculatedFrom( """" ) zchar[ 7 ]chars`crlf
-line` ,@rightPad (
-    '\x00' ) repeat len
-u , uint16 // " ++ [27880; 37322]%N ++ runes_of_ascii "
-options1
-    , } packet
-u
-    { @leftPad
-    ( ' ' ) repeat a1 packetx, u32 a1 @calculatedFrom( """ ++ [128512]%N ++ runes_of_ascii """
-    ) , }packet As { repeat float32 options1
-    `doc`, repeat float32
-// trailing space 
-// trailing space 
-x_y_z
-,@calculatedFrom( """ ++ [28040; 24687]%N ++ runes_of_ascii """
-)u16
-    int`a\` , }")).
+7 :uint8x
+// `tick` ""quote"" 'q'
+//	t
+, [
+// `tick` ""quote"" 'q'
+// " ++ [128512]%N ++ runes_of_ascii " emoji
+65535 , """"
+] ://
+Header """ ++ [233]%N ++ runes_of_ascii "t" ++ [233]%N ++ runes_of_ascii """ :  u8x
+    """ ++ [28040; 24687]%N ++ runes_of_ascii """ : charz 65535 :
+stringy }// " ++ [128512]%N ++ runes_of_ascii " emoji
+,	zchar[007]	uint8x ,f32 repeatCount @lengthOf( // c
+float) `two words` , f64 A  `u8 x,`	,
+}, }
+    packet Header{ }
+")).
+Eval vm_compute in ("<<<M84>>>" ++ check (runes_of_ascii "MetaData rootA
+    {}
+options{ rootA= '\x00' zchar
+    ='0' rootA= float64 ;  trueish	= 3 i64_
+= float64 ; } options{
+    body
+= '0'
+    ;T= ""CRC32"";matchKey = char[] ; }	packet
+rootA {
+    // " ++ [128512]%N ++ runes_of_ascii " emoji
+    @lengthOf( //
+Z9_)
+    @rightPad('0' ) Packet calculatedFrom , }packet
+body
+    { match metadata
+as asx {
+    3 : Header 3: packetx	, [  10]
+:	Packet, """"
+// " ++ [27880; 37322]%N ++ runes_of_ascii "
+// @lengthOf(
+: pack
+,
+10  :
+    // packet A { u8 x, }
+    pack [  255 // `tick` ""quote"" 'q'
+, // `tick` ""quote"" 'q'
+""""
+    , 00 // a // b
+,""it's""] :
+x } ,
+}
+
+")).
+Eval vm_compute in ("<<<M246>>>" ++ check (runes_of_ascii "packet // c
+Z9_ {
+As
+    x
+, @rightPad ( ' ') @lengthOf( Header) @rightPad(  ' '
+)match u as  string_{ ""a	b""
+    : Pad
+    // trailing space 
+    ,1: T , [ """" , 255, ""abc""
+, 7
+    //	t
+    ] :
+BodyLength ,  },match falsey
+as  metadata{ 42: float ,
+    // `tick` ""quote"" 'q'
+    } , match lengthOf
+as As {1
+:
+As, [	"""" ,	""a\\"" ,
+""{,}"" , ""it's"" ,
+    //
+    42,""a\\"" , 0 // trailing space 
+, 3  ]  : f32a, } , // packet A { u8 x, }
+repeat float64 roots ,	}
+")).
 Eval vm_compute in ("<<<M78>>>" ++ check (runes_of_ascii "packet stringy
 {  @calculatedFrom(""a	b""
 )uint8x,}
@@ -1636,1069 +896,563 @@ repeat  char[ //x
 repeat Logon stringy , } root
     packet
     tag { }")).
-Eval vm_compute in ("<<<M3205>>>" ++ check (runes_of_ascii "// top
-options // c0
-{ // c1
-charz // c2
-= // c3
-f64 // c4
-; // c5
-metadata // c6
-= // c7
-7 // c8
-; // c9
-} // c10
-options // c11
-{ // c12
-u128 // c13
-= // c14
-10 // c15
-options1 // c16
-= // c17
-true // c18
-; // c19
-zchar // c20
-= // c21
-uint16 // c22
-; // c23
-lengthOf // c24
-= // c25
-true // c26
-; // c27
-} // c28
-options // c29
-{ // c30
-len // c31
-= // c32
-1 // c33
-} // c34
-")).
-Eval vm_compute in ("<<<M652>>>" ++ check (runes_of_ascii "packet u128{ }
-    // " ++ [128512]%N ++ runes_of_ascii " emoji
-    root
-packet
-rootA{ @tag( // " ++ [27880; 37322]%N ++ runes_of_ascii "
-007 )
-match uint8x as
-    crc {	""a\""b"" :
-    charz ,},
-    // packet A { u8 x, }
-    uint64 repeatCount ,@tag(007//x
-)
-    uint8 f32a
-, @rightPad (
-' ' ) @leftPad
-( '\x00')  @lengthOf( stringy ) T@lengthOf( charz
-    ), metadata matchKey , }
-    packet msg_type {
-    stringy zchar `" ++ [28040; 24687; 31867; 22411]%N ++ runes_of_ascii "` , }
-")).
-Eval vm_compute in ("<<<M170>>>" ++ check (runes_of_ascii "// " ++ [128512]%N ++ runes_of_ascii " emoji
-packet i64_ { match repeatCount
-as u8x{ // packet A { u8 x, }
-7 : crc , },repeat uint32 roots ,
-} packet options1{ match  MetaDataX as
-chars
-{ ""CRC32""
-    :tag , 00 : lengthOf// a // b
-,	""" ++ [233]%N ++ runes_of_ascii "t" ++ [233]%N ++ runes_of_ascii """ : _x , } , uint16 trueish	,
-char[ 10 ] calculatedFrom	,
-@calculatedFrom( ""a\\""  ) @tag(
-65535 ) @rightPad (	'\x00' ) repeat int32 len , }
-")).
-Eval vm_compute in ("<<<M330>>>" ++ check (runes_of_ascii "root packet calculatedFrom { @lengthOf( asx )	T{
-repeat
-/// triple
-//x
-packetx A  ,
-match // " ++ [27880; 37322]%N ++ runes_of_ascii "
-string_ as msg_type { [""abc""] :
-As 0123456789 :  repeatCount
-    , ""a\""b"" :
-roots, } , },uint8x BodyLength `{ , }`
-, string  BodyLength,@leftPad(
-    '\x00'
-) repeat calculatedFrom { uint32 //	t
-trueish ,/// triple
-}, // c
-} // a // b")).
-Eval vm_compute in ("<<<M1906>>>" ++ check (runes_of_ascii "MetaData
-    u { }  options {
-// c
-// @lengthOf(
-float = int8 ;rootA rootA =false ; As =	int16 // `tick` ""quote"" 'q'
-repeatCount
-    // trailing space 
-    =
-    int16
-; u8x =
-    //	t
-    '\x00' ; } options	{
-    repeatCount
-= 0
-u128
-    //
-    = false ; i64_
-// trailing space 
-// `tick` ""quote"" 'q'
-= '0' ; //	t
-}
-")).
-Eval vm_compute in ("<<<M4433>>>" ++ check (runes_of_ascii "options {
-    u128 = false
-}
-
-packet i64_ {
-    @calculatedFrom(""a	b"")
-    Z9_ {
-        x_y_z `two words`,
-        string_,
-    },
-    match BodyLength as As {
-        //x
-        [""a\""b""] : Z9_,
-    },
-    //	t
-    // a // b
-    char[] asx,
-    i16 crc `doc`,
-}
-
-packet o {
-    @leftPad('\x00')
-    repeat u8x T,
-}")).
-Eval vm_compute in ("<<<M2069>>>" ++ check (runes_of_ascii "MetaData
-    u { }  options {
-// c
-// @lengthOf(
-float = int8 ;rootA =false ; As =	| int16 // `tick` ""quote"" 'q'
-repeatCount
-    // trailing space 
-    =
-    int16
-; u8x =
-    //	t
-    '\x00' ; } options	{
-    repeatCount
-= 0
-u128
-    //
-    = false ; i64_
-// trailing space 
-// `tick` ""quote"" 'q'
-= '0' ; //	t
-}
-")).
-Eval vm_compute in ("<<<M1912>>>" ++ check (runes_of_ascii "MetaData
-    u { }  options {
-// c
-// @lengthOf(
-float = int8 ;rootA false= ; As =	int16 // `tick` ""quote"" 'q'
-repeatCount
-    // trailing space 
-    =
-    int16
-; u8x =
-    //	t
-    '\x00' ; } options	{
-    repeatCount
-= 0
-u128
-    //
-    = false ; i64_
-// trailing space 
-// `tick` ""quote"" 'q'
-= '0' ; //	t
-}
-")).
-Eval vm_compute in ("<<<M2052>>>" ++ check (runes_of_ascii "MetaData
-    u { }  options {
-// c
-// @lengthOf(
-float = int8 ;rootA =false ; As =	int16 // `tick` ""quote"" 'q'
-repeatCount
-    // trailing space 
-    =
-    int16
-; u8x =
-    //	t
-    '\x00' ; } options	{
-    repeatCount
-= 0
-u128
-    //
-    = false ; i64_
-// trailing space 
-// `tick` ""quote"" 'q'
-= '0' ; //	t
-]
-")).
-Eval vm_compute in ("<<<M1908>>>" ++ check (runes_of_ascii "MetaData
-    u { }  options {
-// c
-// @lengthOf(
-float = int8 ;f32 =false ; As =	int16 // `tick` ""quote"" 'q'
-repeatCount
-    // trailing space 
-    =
-    int16
-; u8x =
-    //	t
-    '\x00' ; } options	{
-    repeatCount
-= 0
-u128
-    //
-    = false ; i64_
-// trailing space 
-// `tick` ""quote"" 'q'
-= '0' ; //	t
-}
-")).
-Eval vm_compute in ("<<<M483>>>" ++ check (runes_of_ascii "MetaData  As { float32	calculatedFrom
-, BodyLength asx `two words`
-    , }
-options { f32a =
-' ' ; a1  = '\x00'} // trailing space 
-MetaData T {	charz metadata  , lengthOf T	`crlf
-line`	,
-    T
-    rootA
-`
-` , char[] repeatCount
-`it's` ,
-stringy
-rootA, // @lengthOf(
-zchar[ 0123456789 ] MetaDataX ,
-}
-")).
-Eval vm_compute in ("<<<M2058>>>" ++ check (runes_of_ascii "MetaData
-    u { }  options {
-// c
-// @lengthOf(
-float = int8 ;rootA =false ; As =	int16 // `tick` ""quote"" 'q'
-repeatCount
-    // trailing space 
-    =
-    int16
-; u8x =
-    //	t
-    '\x00' ; } options	{
-    repeatCount
-= 0
-u128
-    //
-    = false ; i64_
-// trailing space 
-// `tick` ""quote"" 'q'
-")).
-Eval vm_compute in ("<<<M3765>>>" ++ check (runes_of_ascii "packet
-calculatedFrom{  match
-
-    Logon as u128
-	{
-	[
-1  , 
-""// no comment""  ] 
-:	u8x
-
-""`tick`""
-
-:Header  ,
-	""`tick`""
-
-    :	BodyLength
-	""it's""
-    // a // b
-	  // packet A { u8 x, }
-    : zchar 
-} 	 // " ++ [27880; 37322]%N ++ runes_of_ascii "
-
-,// `tick` ""quote"" 'q'
-
-  char  metadata
-
-@calculatedFrom(	""a\\""	)
-,
-
-}
-")).
-Eval vm_compute in ("<<<M4434>>>" ++ check (runes_of_ascii "  options
-{LittleEndian
-=true
-;
-}
-packet
-    Sub	{
-
-u8  a
-,	@calculatedFrom(
-
-""CRC16""
-) 
-u64	SubSum, 
-}
-root
-	packet Frame
-    {u16
-	MsgType
-
-    ,
-    u16 
-BodyLen@lengthOf( Body), Sub Body	,  string  note, @calculatedFrom(
-""CRC16""
-	)
-	u64
-Checksum ,
-u8 tail	,
-}")).
-Eval vm_compute in ("<<<M4571>>>" ++ check (runes_of_ascii "packet crc {
-    matchKey `tab	here`,
-    repeat f32a {
-        // trailing space 
-        zchar {
-            string uint8x,
-            repeat char[4294967296] msg_type,
-        },
-        roots {
-            zchar[7] u,
-        },
-        uint64 chars,
-    },
-}")).
-Eval vm_compute in ("<<<M1503>>>" ++ check (runes_of_ascii "packet
-//	t
-// trailing space 
-_x {
-// packet A { u8 x, }
-// c
-char[ char[
-3
-    ] u8x @lengthOf(
-u8x ) , @calculatedFrom(""" ++ [128512]%N ++ runes_of_ascii """ // @lengthOf(
-)
-i16	Foo
-@lengthOf(	string_
-    )`doc`	, repeat	i64 metadata , @lengthOf( string_
-) i8 // c
-u  `line1
-line2`	,
-}
-")).
-Eval vm_compute in ("<<<M1538>>>" ++ check (runes_of_ascii "packet
-//	t
-// trailing space 
-_x {
-// packet A { u8 x, }
-// c
-char[
-3
-    ] u8x @lengthOf(
-u8x ) , , @calculatedFrom(""" ++ [128512]%N ++ runes_of_ascii """ // @lengthOf(
-)
-i16	Foo
-@lengthOf(	string_
-    )`doc`	, repeat	i64 metadata , @lengthOf( string_
-) i8 // c
-u  `line1
-line2`	,
-}
-")).
-Eval vm_compute in ("<<<M418>>>" ++ check (runes_of_ascii "/// triple
-root
-packet Logon{@calculatedFrom(	""CRC32""	) uint8x {
-roots pack  `line1
-line2`,},
-    string u
-    ,  }packet body {
-uint64 Logon ,
-}
-    root packet lengthOf { } packet A {u32 pack // `tick` ""quote"" 'q'
-@calculatedFrom(// c
-""" ++ [128512]%N ++ runes_of_ascii """ ) ,
-    }")).
-Eval vm_compute in ("<<<M1610>>>" ++ check (runes_of_ascii "packet
-//	t
-// trailing space 
-_x {
-// packet A { u8 x, }
-// c
-char[
-3
-    ] u8x @lengthOf(
-u8x ) , @calculatedFrom(""" ++ [128512]%N ++ runes_of_ascii """ // @lengthOf(
-)
-i16	Foo
-@lengthOf(	string_
-    )`doc`	, repeat	i64 metadata ; @lengthOf( string_
-) i8 // c
-u  `line1
-line2`	,
-}
-")).
-Eval vm_compute in ("<<<M1620>>>" ++ check (runes_of_ascii "packet
-//	t
-// trailing space 
-_x {
-// packet A { u8 x, }
-// c
-char[
-3
-    ] u8x @lengthOf(
-u8x ) , @calculatedFrom(""" ++ [128512]%N ++ runes_of_ascii """ // @lengthOf(
-)
-i16	Foo
-@lengthOf(	string_
-    )`doc`	, repeat	i64 metadata , @lengthOf( @tag(
-) i8 // c
-u  `line1
-line2`	,
-}
-")).
-Eval vm_compute in ("<<<M850>>>" ++ check (runes_of_ascii "
-MetaData Header { } root// " ++ [128512]%N ++ runes_of_ascii " emoji
-packet i8i8{ @rightPad // trailing space 
-(
-'0' )	u16
-u8x @lengthOf( Header )
-`u8 x,`,
-}
-    MetaData
-u128
-{  zchar[ 00 ]falsey, body repeatCount , len
-    repeatCount
-    ,
-u8 chars  `line1
-line2`
-    , }")).
-Eval vm_compute in ("<<<M763>>>" ++ check (runes_of_ascii "packet rootA{
-char[4294967296 ] rootA@calculatedFrom(	""a	b""	) `crlf
-line`, @calculatedFrom( """" )
-// a // b
-// trailing space 
-pack@lengthOf(// packet A { u8 x, }
-rootA)  `
-`,
-@rightPad (
-' ' ) repeat stringy repeatCount`two words`, }")).
-Eval vm_compute in ("<<<M4112>>>" ++ check (runes_of_ascii "
-MetaData 
-a1
-{char[] 
-repeatCount`it's` ,  char[ 
-4294967296 	 // @lengthOf(
-    ] i8i8	// c
-    `// not a comment` 
-
-// packet A { u8 x, }
-,
-	// @lengthOf(
-	/// triple
-float32
-
-zchar
-
-, }
-    packet
-	calculatedFrom
-{ } ")).
-Eval vm_compute in ("<<<M1072>>>" ++ check (runes_of_ascii "/// triple
-packet trueish{ // packet A { u8 x, }
-repeat int`crlf
-line`
-    ,
-    repeat
-    int32 // c
-o
-, } packet
-    string_ {
-T Logon ,i64_	,
-string_
-, char[ 10
-]zchar@lengthOf(
-    u128/// triple
-)`say ""hi""`
-,
-}")).
-Eval vm_compute in ("<<<M1847>>>" ++ check (runes_of_ascii "options { @lengthOftrueish = ""`tick`"" ; string_= """ ++ [233]%N ++ runes_of_ascii "t" ++ [233]%N ++ runes_of_ascii """
-    // c
-    } root
-    packet body { stringy @calculatedFrom(
-""a	b"" ) `line1
-line2` , }
-packet Logon {
-    @leftPad(
-    ' ' ) //	t
-u16 string_ `u8 x,` ,
-}
-")).
-Eval vm_compute in ("<<<M1752>>>" ++ check (runes_of_ascii "options { trueish = ""`tick`"" ; string_= """ ++ [233]%N ++ runes_of_ascii "t" ++ [233]%N ++ runes_of_ascii """
-    // c
-    } root
-    packet body { stringy @calculatedFrom(
-""a	b"" ""a	b"" ) `line1
-line2` , }
-packet Logon {
-    @leftPad(
-    ' ' ) //	t
-u16 string_ `u8 x,` ,
-}
-")).
-Eval vm_compute in ("<<<M1757>>>" ++ check (runes_of_ascii "options { trueish = ""`tick`"" ; string_= """ ++ [233]%N ++ runes_of_ascii "t" ++ [233]%N ++ runes_of_ascii """
-    // c
-    } root
-    packet body { stringy @calculatedFrom(
-""a	b"" ) ) `line1
-line2` , }
-packet Logon {
-    @leftPad(
-    ' ' ) //	t
-u16 string_ `u8 x,` ,
-}
-")).
-Eval vm_compute in ("<<<M1279>>>" ++ check (runes_of_ascii "MetaData stringy
-    // trailing space 
-    {  char[
-42 ]
-leftPad `tab	here` ,_x pack, char  zchar `// not a comment` ,	u8x repeatCount
-    `say ""hi""`
-,
-    // `tick` ""quote"" 'q'
-    pack uint8x `a\`  ,}
-")).
-Eval vm_compute in ("<<<M1808>>>" ++ check (runes_of_ascii "options { trueish = ""`tick`"" ; string_= """ ++ [233]%N ++ runes_of_ascii "t" ++ [233]%N ++ runes_of_ascii """
-    // c
-    } root
-    packet body { stringy @calculatedFrom(
-""a	b"" ) `line1
-line2` , }
-packet Logon {
-    @leftPad(
-    ' ' u16 //	t
-) string_ `u8 x,` ,
-}
-")).
-Eval vm_compute in ("<<<M1794>>>" ++ check (runes_of_ascii "options { trueish = ""`tick`"" ; string_= """ ++ [233]%N ++ runes_of_ascii "t" ++ [233]%N ++ runes_of_ascii """
-    // c
-    } root
-    packet body { stringy @calculatedFrom(
-""a	b"" ) `line1
-line2` , }
-packet Logon {
-    false(
-    ' ' ) //	t
-u16 string_ `u8 x,` ,
-}
-")).
-Eval vm_compute in ("<<<M1672>>>" ++ check (runes_of_ascii " { trueish = ""`tick`"" ; string_= """ ++ [233]%N ++ runes_of_ascii "t" ++ [233]%N ++ runes_of_ascii """
-    // c
-    } root
-    packet body { stringy @calculatedFrom(
-""a	b"" ) `line1
-line2` , }
-packet Logon {
-    @leftPad(
-    ' ' ) //	t
-u16 string_ `u8 x,` ,
-}
-")).
-Eval vm_compute in ("<<<M879>>>" ++ check (runes_of_ascii "options	{ Foo =1	i64_ =char[]
+Eval vm_compute in ("<<<M368>>>" ++ check (runes_of_ascii "packet f32a{
     /// triple
-    ; string_//
-=
-uint16 ;  chars = char[] ;//	t
-}root
-packet msg_type{ body, @calculatedFrom(// " ++ [27880; 37322]%N ++ runes_of_ascii "
-""packet"" ) repeat zchar[ 4294967296 ]	u128
-,
-}")).
-Eval vm_compute in ("<<<M4527>>>" ++ check (runes_of_ascii "
-
-  root
-packet  u128{char[ 7 
-]
-
-tag@calculatedFrom( 
-""\" ++ [233]%N ++ runes_of_ascii """ )	// " ++ [128512]%N ++ runes_of_ascii " emoji
-	`" ++ [233]%N ++ runes_of_ascii "`
-
-    ,@rightPad	( )  packetx
-
-,
-    @lengthOf(o
-)
-    lengthOf	@lengthOf( float )
-`// not a comment`
-,
-
-}
+    @calculatedFrom( """" ) matchKey	@lengthOf(
+Packet	) `// not a comment` , match msg_type
+//	t
+// c
+as lengthOf {"""":Z9_ ,
+    ""`tick`""
+    : crc , // " ++ [27880; 37322]%N ++ runes_of_ascii "
+[ //
+""\n"" ]: T	,
+    ""x y""
+    :
+    // " ++ [128512]%N ++ runes_of_ascii " emoji
+    _x
+    ,// @lengthOf(
+[  ""a\""b"" //
+] :  u128 }
+,zchar[ 7 ]
+// trailing space 
+// a // b
+_x
+,repeat len MetaDataX ,}
 ")).
-Eval vm_compute in ("<<<M4300>>>" ++ check (runes_of_ascii "// top
-root packet matchKey {
-    // c3
-    zchar[3] pack @calculatedFrom(""a	b"") `doc`,
+Eval vm_compute in ("<<<M1660>>>" ++ check (runes_of_ascii "packet i8i8 {
+    zchar[10] a1,
+}
+
+packet x_y_z {
+    //
+    // c
 }
 
 options {
-}// c16
+    matchKey = false;
+    Foo = i32;
+    MetaDataX = 007
+    pack = """ ++ [28040; 24687]%N ++ runes_of_ascii """;
+}
 
-MetaData A {
-    // c19a
-    // c19b
-    int8 msg_type,
-    // c22
-}")).
-Eval vm_compute in ("<<<M1974>>>" ++ check (runes_of_ascii "MetaData
-    u { }  options {
+packet leftPad {
+}
+
+root packet stringy {
+    /// triple
+    rootA Pad,
+    falsey @calculatedFrom(""it's"") `two words`,
+    u8x float,
+    int64 u8x,
+}//x")).
+Eval vm_compute in ("<<<M1982>>>" ++ check (runes_of_ascii "
+
+  // top
+	packet // c0a
+    	// c0b
+	Inner // c1
+    { // c2
+    u8 
+a// c4a
+		// c4b
+
+  ,  // c5a
+  	// c5b
+  }root 	 // c7a
+// c7b
+	packet 
+	    // c8
+P 
+      // c9
+      {  repeat
+
+Inner
+    items  // c13a
+  	// c13b
+    	, // c14
+    	u8  x 
+// c16
+
+, 	 // c17
+  }
+
+")).
+Eval vm_compute in ("<<<M516>>>" ++ check (runes_of_ascii "root packet tag { }  packet MetaDataX""" ++ [233]%N ++ runes_of_ascii "t" ++ [233]%N ++ runes_of_ascii """char[007	]
 // c
-// @lengthOf(
-float = int8 ;rootA =false ; As =	int16 // `tick` ""quote"" 'q'
-repeatCount
-    // trailing space 
-    =
-    int16
-; u8x =")).
-Eval vm_compute in ("<<<M1964>>>" ++ check (runes_of_ascii "MetaData
-    u { }  options {
-// c
-// @lengthOf(
-float = int8 ;rootA =false ; As =	int16 // `tick` ""quote"" 'q'
-repeatCount
-    // trailing space 
-    =
-    int16
-;")).
-Eval vm_compute in ("<<<M2195>>>" ++ check (runes_of_ascii "options{
-_x
-= true
-} options
-@leftpad { o	= /// triple
-false
-    ; chars
-= ""\n"" } root packet	Pad
 /// triple
-// packet A { u8 x, }
-{	chars
-    // a // b
-    ,}")).
-Eval vm_compute in ("<<<M2381>>>" ++ check (runes_of_ascii "// c
-packet x { @lengthOf( metadata ) repeat lengthOf
-,caf" ++ [233]%N ++ runes_of_ascii "_1{
-trueish	,// c
-repeat//	t
-MetaDataX , } , zchar[
-    42	] rootA // `tick` ""quote"" 'q'
-,
-    }
-")).
-Eval vm_compute in ("<<<M2360>>>" ++ check (runes_of_ascii "// c
-packet x { @lengthOf( metadata ) repeat lengthOf
-,a1{
-trueish	,// c
-repeat//	t
-MetaDataX , } } , zchar[
-    42	] rootA // `tick` ""quote"" 'q'
-,
-    }
-")).
-Eval vm_compute in ("<<<M2100>>>" ++ check (runes_of_ascii "options{
-_x
-= true
-} } options
-{ o	= /// triple
-false
-    ; chars
-= ""\n"" } root packet	Pad
-/// triple
-// packet A { u8 x, }
-{	chars
-    // a // b
-    ,}")).
-Eval vm_compute in ("<<<M960>>>" ++ check (runes_of_ascii "// packet A { u8 x, }
-root  packet Logon/// triple
-{A`doc` , string len ,
-} MetaData len	{int64 i8i8`{ , }`, }
-packet // " ++ [27880; 37322]%N ++ runes_of_ascii "
-lengthOf {i64 Header
-,} //	t")).
-Eval vm_compute in ("<<<M2096>>>" ++ check (runes_of_ascii "options{
-_x
-= }
-true options
-{ o	= /// triple
-false
-    ; chars
-= ""\n"" } root packet	Pad
-/// triple
-// packet A { u8 x, }
-{	chars
-    // a // b
-    ,}")).
-Eval vm_compute in ("<<<M2087>>>" ++ check (runes_of_ascii "options{
-]
-= true
-} options
-{ o	= /// triple
-false
-    ; chars
-= ""\n"" } root packet	Pad
-/// triple
-// packet A { u8 x, }
-{	chars
-    // a // b
-    ,}")).
-Eval vm_compute in ("<<<M2348>>>" ++ check (runes_of_ascii "// c
-{ x { @lengthOf( metadata ) repeat lengthOf
-,a1{
-trueish	,// c
-repeat//	t
-MetaDataX , } , zchar[
-    42	] rootA // `tick` ""quote"" 'q'
-,
-    }
-")).
-Eval vm_compute in ("<<<M2333>>>" ++ check (runes_of_ascii "// c
-packet x { @lengthOf( metadata ) repeat (
-,a1{
-trueish	,// c
-repeat//	t
-MetaDataX , } , zchar[
-    42	] rootA // `tick` ""quote"" 'q'
-,
-    }
-")).
-Eval vm_compute in ("<<<M852>>>" ++ check (runes_of_ascii "MetaData calculatedFrom{
-// @lengthOf(
+asx  @calculatedFrom( ""a\""b""
+) `say ""hi""`// " ++ [27880; 37322]%N ++ runes_of_ascii "
+,  @tag(4294967296 )
+    char[1//x
+] packetx @calculatedFrom(""a\""b""
+    ) ,
+// " ++ [128512]%N ++ runes_of_ascii " emoji
 // a // b
-string Packet // a // b
+@calculatedFrom(""" ++ [233]%N ++ runes_of_ascii "t" ++ [233]%N ++ runes_of_ascii """  ) repeat pack // " ++ [27880; 37322]%N ++ runes_of_ascii "
 ,
-zchar[
-    42
-    ] msg_type , char[
-    3] u128
-, i16 f32a , }
+    } // c")).
+Eval vm_compute in ("<<<M1220>>>" ++ check (runes_of_ascii "// top
+root // c0
+packet // c1a
+  // c1b
+matchKey // c2
+{
+    // c3
+zchar[ 3 // c5
+]
+    // c6
+pack @calculatedFrom( // c8
+""a	b"" // c9a
+  // c9b
+) // c10
+`doc` // c11
+, } options
+    // c14
+{ } // c16
+MetaData A { // c19a
+  // c19b
+int8 // c20
+msg_type ,
+    // c22
+} ")).
+Eval vm_compute in ("<<<M513>>>" ++ check (runes_of_ascii "root packet tag { }  packet MetaDataX char[007	]
+// c
+/// triple
+asx  @calculatedFrom( ""a\""b""
+) `say ""hi""`// " ++ [27880; 37322]%N ++ runes_of_ascii "
+,  @tag(4294967296 )
+    char[1//x
+] packetx @calculatedFrom(""a\""b""
+    ) ,
+// " ++ [128512]%N ++ runes_of_ascii " emoji
+// a // b
+@calculatedFrom(""" ++ [233]%N ++ runes_of_ascii "t" ++ [233]%N ++ runes_of_ascii """  ) repeat pack // " ++ [27880; 37322]%N ++ runes_of_ascii "
+,
+    } // c")).
+Eval vm_compute in ("<<<M558>>>" ++ check (runes_of_ascii "root packet tag { }  packet MetaDataX{char[007	]
+// c
+/// triple
+asx  @calculatedFrom( ""a\""b""
+) `say ""hi""`// " ++ [27880; 37322]%N ++ runes_of_ascii "
+  @tag(4294967296 )
+    char[1//x
+] packetx @calculatedFrom(""a\""b""
+    ) ,
+// " ++ [128512]%N ++ runes_of_ascii " emoji
+// a // b
+@calculatedFrom(""" ++ [233]%N ++ runes_of_ascii "t" ++ [233]%N ++ runes_of_ascii """  ) repeat pack // " ++ [27880; 37322]%N ++ runes_of_ascii "
+,
+    } // c")).
+Eval vm_compute in ("<<<M518>>>" ++ check (runes_of_ascii "root packet tag { }  packet MetaDataX{007	]
+// c
+/// triple
+asx  @calculatedFrom( ""a\""b""
+) `say ""hi""`// " ++ [27880; 37322]%N ++ runes_of_ascii "
+,  @tag(4294967296 )
+    char[1//x
+] packetx @calculatedFrom(""a\""b""
+    ) ,
+// " ++ [128512]%N ++ runes_of_ascii " emoji
+// a // b
+@calculatedFrom(""" ++ [233]%N ++ runes_of_ascii "t" ++ [233]%N ++ runes_of_ascii """  ) repeat pack // " ++ [27880; 37322]%N ++ runes_of_ascii "
+,
+    } // c")).
+Eval vm_compute in ("<<<M280>>>" ++ check (runes_of_ascii "
+options
+{charz =""x y"" calculatedFrom =	'0'	} packet msg_type {msg_type asx, string// packet A { u8 x, }
+packetx ,MetaDataX,
+Header { i64 packetx`tab	here`
+,  }, } options { // @lengthOf(
+uint8x = 0 x_y_z =	""x y""
+// packet A { u8 x, }
+//	t
+; }")).
+Eval vm_compute in ("<<<M1498>>>" ++ check (runes_of_ascii "// top
+packet // c0a
+  // c0b
+order_item
+    // c1
+{ u8 // c3a
+  // c3b
+a ,
+    // c5
+} // c6a
+  // c6b
+root
+    // c7
+packet // c8a
+  // c8b
+new_order // c9a
+  // c9b
+{ order_item
+    // c11
+,
+    // c12
+u8 x // c14
+, } ")).
+Eval vm_compute in ("<<<M1872>>>" ++ check (runes_of_ascii "packet 
+    // `tick` ""quote"" 'q'
+  	crc 
+    // packet A { u8 x, }
 
+  //	t
+    {
+u32	a1
+, 
+	    // trailing space 
+
+float32 charz  //
+    `two words`
+, }MetaData
+
+    int
+
+    { }/// triple
 ")).
-Eval vm_compute in ("<<<M4079>>>" ++ check (runes_of_ascii "packet A {
+Eval vm_compute in ("<<<M1476>>>" ++ check (runes_of_ascii "// top
+root
+    // c0
+packet // c1a
+  // c1b
+P { // c3
+u16 // c4
+a ,
+    // c6
+u32 Sum // c8
+@calculatedFrom( // c9a
+  // c9b
+""CRC32"" // c10
+) // c11a
+  // c11b
+, // c12
+}
+    // c13
+")).
+Eval vm_compute in ("<<<M713>>>" ++ check (runes_of_ascii "root packet len len // trailing space 
+{
+// " ++ [27880; 37322]%N ++ runes_of_ascii "
+//	t
+char[10
+] metadata	@lengthOf( o ) `crlf
+line`,
+    @rightPad
+( ' '
+) string
+    Header @calculatedFrom( ""a\\""
+    ), }
+")).
+Eval vm_compute in ("<<<M715>>>" ++ check (runes_of_ascii "root packet len // trailing space 
+{
+// " ++ [27880; 37322]%N ++ runes_of_ascii "
+//	t
+char[10
+] metadata	@lengthOf( o ) `crlf
+line`,
+    @rightPad
+( ( ' '
+) string
+    Header @calculatedFrom( ""a\\""
+    ), }
+")).
+Eval vm_compute in ("<<<M456>>>" ++ check (runes_of_ascii "packet
+    // `tick` ""quote"" 'q'
+    crc
+// packet A { u8 x, }
+//	t
+{
+u32 a1 ,
+    // trailing space 
+    roots
+charz //
+`two words`,	}
+    MetaData int {
+) /// triple")).
+Eval vm_compute in ("<<<M1746>>>" ++ check (runes_of_ascii "packet A {
     match k as n {
         [
-            1, ""bb"", 007, ""d"", 5,
-            ""f"", 7, ""h"", 9
+            ""a"", 22, ""c c"", 4, ""e"",
+            66, ""g"", 8, ""i"", 10,
+            ""k"", 12
         ] : B,
         2 : C,
     },
 }")).
-Eval vm_compute in ("<<<M1780>>>" ++ check (runes_of_ascii "options { trueish = ""`tick`"" ; string_= """ ++ [233]%N ++ runes_of_ascii "t" ++ [233]%N ++ runes_of_ascii """
-    // c
-    } root
-    packet body { stringy @calculatedFrom(
-""a	b"" ) `line1
-line2` , }")).
-Eval vm_compute in ("<<<M828>>>" ++ check (runes_of_ascii "packet stringy
-{
-repeat
-    roots  {
-    u64 pack
-`doc` , char[ 7 ] Z9_@calculatedFrom(""abc"" )
-`` , zchar lengthOf  `
-` ,
-}
-, }")).
-Eval vm_compute in ("<<<M1403>>>" ++ check (runes_of_ascii "
+Eval vm_compute in ("<<<M2104>>>" ++ check (runes_of_ascii "root
 packet
-    falsey falsey { Header@calculatedFrom(""packet""  ) , char[
-    0123456789 ] packetx
-    , } // `tick` ""quote"" 'q'")).
-Eval vm_compute in ("<<<M540>>>" ++ check (runes_of_ascii "MetaData T {
-i64 body `
-`// c
-, string packetx, int
-Pad , // @lengthOf(
-char[]  A `" ++ [233]%N ++ runes_of_ascii "`, i8i8 float ,repeatCount
-    o , }
+
+    matchKey { zchar[3]
+    pack@calculatedFrom(
+
+""a	b"" 
+)
+`doc` 
+,	} options 
+	    // c
+  { } 
+MetaData
+A
+
+    {
+
+    int8
+msg_type
+
+, }
+
 ")).
-Eval vm_compute in ("<<<M3340>>>" ++ check (runes_of_ascii "root packet matchKey { zchar[ 3 ] pack @calculatedFrom( ""a	b"" ) `doc` , } options // c
-{ } MetaData A { int8 msg_type , }")).
-Eval vm_compute in ("<<<M1460>>>" ++ check (runes_of_ascii "
-packet
-    falsey { Header@calculatedFrom(""packet""  ) , char[
-    0123456789 ] packetx
-    u64 } // `tick` ""quote"" 'q'")).
-Eval vm_compute in ("<<<M1400>>>" ++ check (runes_of_ascii "
-falsey
-    packet { Header@calculatedFrom(""packet""  ) , char[
-    0123456789 ] packetx
-    , } // `tick` ""quote"" 'q'")).
-Eval vm_compute in ("<<<M1487>>>" ++ check (runes_of_ascii "
-packet
-    na" ++ [239]%N ++ runes_of_ascii "ve { Header@calculatedFrom(""packet""  ) , char[
-    0123456789 ] packetx
-    , } // `tick` ""quote"" 'q'")).
-Eval vm_compute in ("<<<M1445>>>" ++ check (runes_of_ascii "
-packet
-    falsey { Header@calculatedFrom(""packet""  ) , char[
-    false ] packetx
-    , } // `tick` ""quote"" 'q'")).
-Eval vm_compute in ("<<<M1241>>>" ++ check (runes_of_ascii "packet T {@rightPad
-() @tag(00
-    ) char[]
-a1
-    @calculatedFrom(
-    ""a\""b""
-    )
-    `two words`
-    , }
-")).
-Eval vm_compute in ("<<<M845>>>" ++ check (runes_of_ascii "packet zchar { @lengthOf( i8i8 ) int16
-msg_type @lengthOf(
-    // c
-    As // `tick` ""quote"" 'q'
-) `
-`
-,}
-")).
-Eval vm_compute in ("<<<M4466>>>" ++ check (runes_of_ascii "MetaData string_ {
-    Header u128 `tab	here`,
-    i64 Z9_,
-    x matchKey,
-    string u,
-    f64 Foo,
-}")).
-Eval vm_compute in ("<<<M3004>>>" ++ check (runes_of_ascii "packet A {
+Eval vm_compute in ("<<<M2130>>>" ++ check (runes_of_ascii "packet A {
     Inner {
-        u8 x `a
-b`,
-        Deep {
-            u8 y `a
-b`,
+        match k as n {
+            [
+                1, 22, 007, 4, 5,
+                66
+            ] : B,
         },
     },
 }")).
-Eval vm_compute in ("<<<M4612>>>" ++ check (runes_of_ascii "packet o {
-    repeat Logon uint8x,
-}
+Eval vm_compute in ("<<<M2062>>>" ++ check (runes_of_ascii "packet A {
+    Inner {
+        u8 x `a
+                b`,
+        Deep {
+            u8 y `a
+                        b`,
+        },
+    },
+}")).
+Eval vm_compute in ("<<<M1813>>>" ++ check (runes_of_ascii "  options
+{	zchar  =
+007	Header
+=
 
-options {
-    asx = zchar[3]
-    // c
-    stringy = '\x00'
-}")).
-Eval vm_compute in ("<<<M2939>>>" ++ check (runes_of_ascii "packet A {
-  match k as n {
-    [""a"", ""bb"", ""c c"", ""d"", ""e"", ""f"", ""g"", ""h""] : B
-    2 : C
-  },
-}")).
-Eval vm_compute in ("<<<M721>>>" ++ check (runes_of_ascii "MetaData A  {zchar[42 ]string_ ,}MetaData u{
-    // a // b
-    } options {
-o
-= ""CRC32""
-;  }
+    char[// c
+    007
+    ] ;
+lengthOf	= 
+char[ 7]
+    ;chars= //
+		""""  // a // b
+    ; }
 
 ")).
-Eval vm_compute in ("<<<M2267>>>" ++ check (runes_of_ascii "options
-{ } options { BodyLength= u16 Header= f64 ; u128 u128 =
-    true
-    ; } // a // b")).
-Eval vm_compute in ("<<<M4131>>>" ++ check (runes_of_ascii "packet o {
-    repeat Logon uint8x,
+Eval vm_compute in ("<<<M1096>>>" ++ check (runes_of_ascii "// top
+root
+    // c0
+packet
+    // c1
+u128
+    // c2
+{
+    // c3
+chars
+    // c4
+`it's`
+    // c5
+,
+    // c6
+}
+    // c7
+")).
+Eval vm_compute in ("<<<M1243>>>" ++ check (runes_of_ascii "root packet matchKey { zchar[ 3 ] pack @calculatedFrom( ""a	b"" ) // c
+`doc` , } options { } MetaData A { int8 msg_type , }")).
+Eval vm_compute in ("<<<M351>>>" ++ check (runes_of_ascii "packet lengthOf
+    { @tag(007 )trueish
+    // c
+    {
+    repeat string asx,
+} , } options
+    {roots=
+    ""x y""	; }
+")).
+Eval vm_compute in ("<<<M6>>>" ++ check (runes_of_ascii "root	packet
+    charz { // " ++ [128512]%N ++ runes_of_ascii " emoji
+repeat char[65535
+]
+options1,} options  { As=
+    //
+    ""\n""
+    } // a // b")).
+Eval vm_compute in ("<<<M2107>>>" ++ check (runes_of_ascii "MetaData float {
+    float64 charz `
+        `,
 }
 
-options {
-    asx = zchar[3]
-    stringy = '\x00'
+root packet chars {
+    // c
+    @rightPad('0')
+    Foo,
 }")).
-Eval vm_compute in ("<<<M3288>>>" ++ check (runes_of_ascii "MetaData float { float64 charz `
-` , } root packet
-// c
-chars { @rightPad ( '0' ) Foo , }")).
-Eval vm_compute in ("<<<M3499>>>" ++ check (runes_of_ascii "packet chars { } packet MetaDataX { @tag( // c
-42 ) i16 string_ , repeat x `say ""hi""` , }")).
-Eval vm_compute in ("<<<M2262>>>" ++ check (runes_of_ascii "options
-{ } options { BodyLength= u16 Header= f64 ; ; u128 =
-    true
-    ; } // a // b")).
-Eval vm_compute in ("<<<M2912>>>" ++ check (runes_of_ascii "packet A {
+Eval vm_compute in ("<<<M1097>>>" ++ check (runes_of_ascii "// top
+root // c0
+packet
+    // c1
+u128 // c2a
+  // c2b
+{
+    // c3
+chars
+    // c4
+`it's` , }
+    // c7
+")).
+Eval vm_compute in ("<<<M283>>>" ++ check (runes_of_ascii "MetaData asx { chars
+f32a , string /// triple
+T , } options
+{ zchar=
+    10
+    // " ++ [27880; 37322]%N ++ runes_of_ascii "
+    crc= true}
+")).
+Eval vm_compute in ("<<<M877>>>" ++ check (runes_of_ascii "packet A {
   match k as n {
-    [""a"", ""bb"", ""c c"", ""d"", ""e"", ""f""] : B,
+    [1, ""bb"", 007, ""d"", 5, ""f"", 7, ""h"", 9, ""j""] : B,
     2 : C
   },
 }")).
-Eval vm_compute in ("<<<M2273>>>" ++ check (runes_of_ascii "options
-{ } options { BodyLength= u16 Header= f64 ; u128 true
-    =
-    ; } // a // b")).
-Eval vm_compute in ("<<<M3239>>>" ++ check (runes_of_ascii "packet metadata { Logon { A `" ++ [28040; 24687; 31867; 22411]%N ++ runes_of_ascii "` , tag o , } , zchar // c
-len `// not a comment` , }")).
-Eval vm_compute in ("<<<M3430>>>" ++ check (runes_of_ascii "packet
+Eval vm_compute in ("<<<M552>>>" ++ check (runes_of_ascii "root packet tag { }  packet MetaDataX{char[007	]
 // c
-o { repeat Logon uint8x , } options { asx = zchar[ 3 ] stringy = '\x00' }")).
-Eval vm_compute in ("<<<M3462>>>" ++ check (runes_of_ascii "packet o { repeat Logon uint8x , } options { asx = zchar[ 3 ] stringy =
+/// triple
+asx  @calculatedFrom( ""a\""b""")).
+Eval vm_compute in ("<<<M2038>>>" ++ check (runes_of_ascii "root packet P {
+    // c3a
+    // c3b
+    char c,// c6
+    u8 x,// c9a
+    // c9b
+}
+// c10")).
+Eval vm_compute in ("<<<M1202>>>" ++ check (runes_of_ascii "MetaData float { float64 charz `
+` , } root packet chars { // c
+@rightPad ( '0' ) Foo , }")).
+Eval vm_compute in ("<<<M1413>>>" ++ check (runes_of_ascii "packet chars { } packet MetaDataX { @tag( 42
 // c
-'\x00' }")).
-Eval vm_compute in ("<<<M2279>>>" ++ check (runes_of_ascii "options
-{ } options { BodyLength= u16 Header= f64 ; u128 =
-    [
-    ; } // a // b")).
-Eval vm_compute in ("<<<M3405>>>" ++ check (runes_of_ascii "MetaData body { i64 pack `it's`
+) i16 string_ , repeat x `say ""hi""` , }")).
+Eval vm_compute in ("<<<M1081>>>" ++ check (runes_of_ascii "packet A { match k as n // a
+ { // b
+ 1 // c
+ : // d
+ B // e
+ , // f
+ } // g
+ , // h
+ }")).
+Eval vm_compute in ("<<<M1143>>>" ++ check (runes_of_ascii "packet metadata { Logon { A `" ++ [28040; 24687; 31867; 22411]%N ++ runes_of_ascii "` , tag o
 // c
-, } packet stringy { int16 calculatedFrom , }")).
-Eval vm_compute in ("<<<M2937>>>" ++ check (runes_of_ascii "packet A {
+, } , zchar len `// not a comment` , }")).
+Eval vm_compute in ("<<<M1348>>>" ++ check (runes_of_ascii "packet o { repeat Logon // c
+uint8x , } options { asx = zchar[ 3 ] stringy = '\x00' }")).
+Eval vm_compute in ("<<<M384>>>" ++ check (runes_of_ascii "root packet SimpleMessage {
+	uint16 MsgType `" ++ [28040; 24687; 31867; 22411]%N ++ runes_of_ascii "`,
+	string JsonBody `Json" ++ [23383; 31526; 20018; 28040; 24687; 20307]%N ++ runes_of_ascii "`,
+}")).
+Eval vm_compute in ("<<<M1309>>>" ++ check (runes_of_ascii "MetaData body { // c
+i64 pack `it's` , } packet stringy { int16 calculatedFrom , }")).
+Eval vm_compute in ("<<<M848>>>" ++ check (runes_of_ascii "packet A {
   match k as n {
     [1, 22, 007, 4, 5, 66, 7, 8] : B
     2 : C
   },
 }")).
-Eval vm_compute in ("<<<M3536>>>" ++ check (runes_of_ascii "packet Inner {
-    u8 a,
-}
-root packet P {
-    repeat Inner items,
-    u8 x,
-}
-")).
-Eval vm_compute in ("<<<M630>>>" ++ check (runes_of_ascii "packet u { repeat uint64 Pad
-`a\` ,} packet string_ { repeat a1 Packet
-,}
-")).
-Eval vm_compute in ("<<<M97>>>" ++ check (runes_of_ascii "options // " ++ [27880; 37322]%N ++ runes_of_ascii "
-{
-// packet A { u8 x, }
-// a // b
-}
-    packet T {
-    }
-")).
-Eval vm_compute in ("<<<M1516>>>" ++ check (runes_of_ascii "packet
-//	t
-// trailing space 
-_x {
-// packet A { u8 x, }
-// c
-char[
-3")).
-Eval vm_compute in ("<<<M3905>>>" ++ check (runes_of_ascii "
-options 
-      // a // b
-  { float 
-= char[
-4294967296 
-] 
-;
-}
-")).
-Eval vm_compute in ("<<<M3576>>>" ++ check (runes_of_ascii "  root
+Eval vm_compute in ("<<<M815>>>" ++ check (runes_of_ascii "packet A {
+  match k as n {
+    [""a"", 22, ""c c"", 4, ""e""] : B
+    2 : C
+  },
+}")).
+Eval vm_compute in ("<<<M1094>>>" ++ check (runes_of_ascii "packet A {
+    match k as n {
+        1 : B // c
+        , // d
+    },
+}")).
+Eval vm_compute in ("<<<M1723>>>" ++ check (runes_of_ascii "
 packet
 
-P {u8
-s_u8
-    ,repeat u8 r_u8 ,u16
-b_len
-,  }
+A
+	{ match
+    k
+as n
+{ 
+[ 1 ,
+
+22  ] 
+:
+B
+2
+:
+
+C }  ,}
 ")).
-Eval vm_compute in ("<<<M4102>>>" ++ check (runes_of_ascii "
-MetaData
+Eval vm_compute in ("<<<M1855>>>" ++ check (runes_of_ascii "// c
+packet x {
+    @rightPad()
+    repeat roots Logon `doc`,
+}")).
+Eval vm_compute in ("<<<M1819>>>" ++ check (runes_of_ascii "
 
-M
+  root packet
+u128
+    {
 
-{
-u8
-	x
-`a
-    b
-  c` ,
-T
-t
-	`a
-    b
-  c` ,
-}")).
-Eval vm_compute in ("<<<M3802>>>" ++ check (runes_of_ascii "packet calculatedFrom {
-    u32 metadata @lengthOf(Logon),
-}")).
-Eval vm_compute in ("<<<M3363>>>" ++ check (runes_of_ascii "// c
-packet x { @rightPad ( ) repeat roots Logon `doc` , }")).
-Eval vm_compute in ("<<<M3014>>>" ++ check (runes_of_ascii "packet A {
-    B b `
-`,
-    B `
-`,
-    repeat B bs `
-`,
-}")).
-Eval vm_compute in ("<<<M4206>>>" ++ check (runes_of_ascii "packet A {
+    chars`it's` ,
+
+}  // c
+")).
+Eval vm_compute in ("<<<M2050>>>" ++ check (runes_of_ascii "root packet P {
+    hdr {
+        u8 a,
+    },
     u8 x,
-}// a
-
-// b
-packet B {
-}// c
-// d")).
-Eval vm_compute in ("<<<M3163>>>" ++ check (runes_of_ascii "packet A { u8 x, } // a
+}")).
+Eval vm_compute in ("<<<M1074>>>" ++ check (runes_of_ascii "packet A { u8 x, } // a
 // b
 packet B {} // c
 // d")).
-Eval vm_compute in ("<<<M2842>>>" ++ check (runes_of_ascii "uint16 int16 ; = char[ @leftPad repeat u16 [ as")).
-Eval vm_compute in ("<<<M2650>>>" ++ check (runes_of_ascii "MetaData M { u8 x `d` , y z `e`, char[3] w, }")).
-Eval vm_compute in ("<<<M229>>>" ++ check (runes_of_ascii "packet float { }	packet
-body
-    { }
-//x
-")).
-Eval vm_compute in ("<<<M2702>>>" ++ check ([11]%N ++ runes_of_ascii "d" ++ [65533]%N ++ runes_of_ascii "g" ++ [65533; 65533; 65533; 65533]%N ++ runes_of_ascii "(" ++ [29]%N ++ runes_of_ascii "0" ++ [65533; 65533]%N ++ runes_of_ascii "O" ++ [65533]%N ++ runes_of_ascii "[Y" ++ [65533; 65533]%N ++ runes_of_ascii "1p" ++ [65533]%N ++ runes_of_ascii "f" ++ [65533; 65533; 14]%N ++ runes_of_ascii "}`" ++ [7]%N ++ runes_of_ascii "g" ++ [65533; 65533]%N ++ runes_of_ascii "#k" ++ [65533; 65533; 65533; 65533]%N ++ runes_of_ascii "L")).
-Eval vm_compute in ("<<<M3922>>>" ++ check (runes_of_ascii "  packet
-i8i8 
-{
+Eval vm_compute in ("<<<M1995>>>" ++ check (runes_of_ascii "  root
 
-    } 
-        // c")).
-Eval vm_compute in ("<<<M137>>>" ++ check (runes_of_ascii "//x
-MetaData falsey{ string Pad , }
-")).
-Eval vm_compute in ("<<<M2642>>>" ++ check (runes_of_ascii "root packet A { } root packet B { }")).
-Eval vm_compute in ("<<<M682>>>" ++ check (runes_of_ascii "  MetaData
-    options1  {
+packet
+A
+
+{u8  x`a
+b`
+	,
+
     }
-")).
-Eval vm_compute in ("<<<M3147>>>" ++ check (runes_of_ascii "packet A {
- u8 x `d x`, // c x
-}")).
-Eval vm_compute in ("<<<M2732>>>" ++ check ([65533; 2]%N ++ runes_of_ascii "+" ++ [65533]%N ++ runes_of_ascii "q" ++ [30]%N ++ runes_of_ascii "~#" ++ [65533; 65533]%N ++ runes_of_ascii "?&4" ++ [65533]%N ++ runes_of_ascii "ve" ++ [65533; 65533; 65533]%N ++ runes_of_ascii "j" ++ [65533; 65533; 3; 65533; 65533; 25; 16; 65533; 65533; 29]%N)).
-Eval vm_compute in ("<<<M2756>>>" ++ check (runes_of_ascii "P={<`""w|U c%74a5s%ZJ!a{B`/*I$")).
-Eval vm_compute in ("<<<M2649>>>" ++ check (runes_of_ascii "MetaData M { repeat u8 x, }")).
-Eval vm_compute in ("<<<M3263>>>" ++ check (runes_of_ascii "root packet pack { }
-// c
-")).
-Eval vm_compute in ("<<<M831>>>" ++ check (runes_of_ascii "packet u8x {int8 As ,}
-")).
-Eval vm_compute in ("<<<M141>>>" ++ check (runes_of_ascii "packet Header {
-    }
-")).
-Eval vm_compute in ("<<<M465>>>" ++ check (runes_of_ascii "MetaData Z9_
-    {
-}")).
-Eval vm_compute in ("<<<M2565>>>" ++ check (runes_of_ascii "packet A { repeat }")).
-Eval vm_compute in ("<<<M2659>>>" ++ check (runes_of_ascii "options { a = b; }")).
-Eval vm_compute in ("<<<M3131>>>" ++ check (runes_of_ascii "// c" ++ [8203]%N ++ runes_of_ascii "
-packet A {
-}")).
-Eval vm_compute in ("<<<M3093>>>" ++ check (runes_of_ascii "packet A {
-}// c" ++ [8232]%N)).
-Eval vm_compute in ("<<<M1366>>>" ++ check (runes_of_ascii "
-// @lengthOf(
-")).
-Eval vm_compute in ("<<<M4455>>>" ++ check (runes_of_ascii "// @lengthOf(")).
-Eval vm_compute in ("<<<M2541>>>" ++ check (runes_of_ascii ":,;=()[]{}")).
-Eval vm_compute in ("<<<M363>>>" ++ check (runes_of_ascii "// c
-
 
 ")).
-Eval vm_compute in ("<<<M2558>>>" ++ check (runes_of_ascii "// " ++ [233]%N ++ runes_of_ascii "
-" ++ [21517]%N)).
-Eval vm_compute in ("<<<M3059>>>" ++ check (runes_of_ascii "// c ")).
-Eval vm_compute in ("<<<M2516>>>" ++ check (runes_of_ascii """\\""")).
-Eval vm_compute in ("<<<M2529>>>" ++ check (runes_of_ascii "1 2")).
-Eval vm_compute in ("<<<M2521>>>" ++ check (runes_of_ascii "`a")).
-Eval vm_compute in ("<<<M2845>>>" ++ check (runes_of_ascii "M")).
+Eval vm_compute in ("<<<M398>>>" ++ check (runes_of_ascii "packet
+    // `tick` ""quote"" 'q'
+    crc")).
+Eval vm_compute in ("<<<M517>>>" ++ check (runes_of_ascii "root packet tag { }  packet MetaDataX")).
+Eval vm_compute in ("<<<M1804>>>" ++ check (runes_of_ascii "packet body {
+    // @lengthOf(
+}")).
+Eval vm_compute in ("<<<M1018>>>" ++ check (runes_of_ascii "packet A {
+ u8 x `d" ++ [8239]%N ++ runes_of_ascii "`, // c" ++ [8239]%N ++ runes_of_ascii "
+}")).
+Eval vm_compute in ("<<<M2056>>>" ++ check (runes_of_ascii "
+// c" ++ [12]%N ++ runes_of_ascii "
+  packet
+
+A
+
+{ 
+}
+
+")).
+Eval vm_compute in ("<<<M1963>>>" ++ check (runes_of_ascii "
+packet
+A
+	{// a
+
+}
+")).
+Eval vm_compute in ("<<<M215>>>" ++ check (runes_of_ascii "
+packet uint8x	{	}")).
+Eval vm_compute in ("<<<M1051>>>" ++ check (runes_of_ascii "packet A {
+}
+// c" ++ [6158]%N)).
+Eval vm_compute in ("<<<M741>>>" ++ check (runes_of_ascii "_MY?NOgwP4leE+V")).
+Eval vm_compute in ("<<<M734>>>" ++ check (runes_of_ascii "string")).
+Eval vm_compute in ("<<<M767>>>" ++ check (runes_of_ascii "i64")).
